@@ -14,7 +14,13 @@ abbrev Sk := List (Nat × List RRec)
 def skel (segs : List Segm) : Sk := segs.map (fun sg => (sg.id, sg.raft))
 
 /-- records of one group inside one segment are in increasing, disjoint order -/
-def RecLt (r1 r2 : RRec) : Prop := r1.lo ≠ 0 → r2.lo ≠ 0 → r1.g = r2.g → r1.hi < r2.lo
+def RecLt (r1 r2 : RRec) : Prop := r1.lo ≠ 0 → r2.lo ≠ 0 → r1.g = r2.g → r1.lhi < r2.lo
+
+/-- entry spans are in increasing index order and non-empty -/
+def SpansOK (spans : List (Nat × Nat × Nat)) : Prop :=
+  spans.Pairwise (fun a b => a.2.1 < b.1) ∧ ∀ sp ∈ spans, sp.1 ≤ sp.2.1
+
+def Covered (spans : List (Nat × Nat × Nat)) (i : Nat) : Prop := ∃ sp ∈ spans, sp.1 ≤ i ∧ i ≤ sp.2.1
 
 structure Shape (s : S) : Prop where
   sorted : s.segs.Pairwise (fun a b => a.id < b.id)
@@ -29,26 +35,34 @@ structure Lsm (s : S) : Prop where
   absent : ∀ sg ∈ s.segs, sg.present = false → ∀ p ∈ sg.puts, p ∈ s.tables
   inst : ∀ sg ∈ s.segs, sg.id ∈ s.installed → ∀ p ∈ sg.puts, p ∈ s.tables
 
-/-- an absent segment holds no raft entry above its group's truncation point -/
+/-- an absent segment holds no live raft entry above its group's truncation point -/
 def Kept (s : S) : Prop :=
   ∀ sg ∈ s.segs, sg.present = false → ∀ r ∈ sg.raft, r.lo ≠ 0 →
-    ∀ g ∈ s.grps, g.id = r.g → r.hi ≤ g.trunc
+    ∀ g ∈ s.grps, g.id = r.g → r.lhi ≤ g.trunc
 
 structure RaftInv (sk : Sk) (grps : List Grp) (active : Nat) : Prop where
   uniq : ∀ g1 ∈ grps, ∀ g2 ∈ grps, g1.id = g2.id → g1 = g2
   bound : ∀ g ∈ grps, g.ptrSeg ≤ active ∧ g.segIndex ≤ active
   idLe : ∀ e ∈ sk, e.1 ≤ active
-  ptr : ∀ e ∈ sk, ∀ r ∈ e.2, r.lo ≠ 0 → ∀ g ∈ grps, g.id = r.g → g.trunc < r.hi →
+  idPos : ∀ e ∈ sk, 0 < e.1
+  /-- every live entry above a group's truncation point lies in a segment ≥ its SegmentIndex -/
+  ptr : ∀ e ∈ sk, ∀ r ∈ e.2, r.lo ≠ 0 → ∀ g ∈ grps, g.id = r.g → g.trunc < r.lhi →
     g.ptrSeg ≠ 0 ∧ (g.segIndex ≠ 0 → g.segIndex ≤ e.1)
+  /-- the live part of a record in an earlier segment ends before a record of a later segment starts -/
   cross : ∀ eA ∈ sk, ∀ eB ∈ sk, ∀ rA ∈ eA.2, ∀ rB ∈ eB.2, rA.lo ≠ 0 → rB.lo ≠ 0 → rA.g = rB.g →
-    eA.1 < eB.1 → rA.hi < rB.lo
+    eA.1 < eB.1 → rA.lhi < rB.lo
   within : ∀ e ∈ sk, e.2.Pairwise RecLt
-  leLast : ∀ e ∈ sk, ∀ r ∈ e.2, r.lo ≠ 0 → ∀ g ∈ grps, g.id = r.g → r.hi ≤ g.last
+  leLast : ∀ e ∈ sk, ∀ r ∈ e.2, r.lo ≠ 0 → ∀ g ∈ grps, g.id = r.g → r.lhi ≤ g.last
   loLe : ∀ e ∈ sk, ∀ r ∈ e.2, r.lo ≠ 0 → r.lo ≤ r.hi
+  lhiLe : ∀ e ∈ sk, ∀ r ∈ e.2, r.lo ≠ 0 → r.lhi ≤ r.hi
+  /-- every span comes from a record of its segment that starts at or before it -/
   span : ∀ g ∈ grps, ∀ sp ∈ g.spans, ∃ e ∈ sk, ∃ r ∈ e.2,
-    e.1 = sp.2.2 ∧ r.g = g.id ∧ r.lo ≠ 0 ∧ r.lo ≤ sp.1 ∧ r.hi = sp.2.1
-  cover : ∀ g ∈ grps, g.openOK = true → ∀ i, g.trunc < i → i ≤ g.last →
-    ∃ sp ∈ g.spans, sp.1 ≤ i ∧ i ≤ sp.2.1
+    e.1 = sp.2.2 ∧ r.g = g.id ∧ r.lo ≠ 0 ∧ r.lo ≤ sp.1
+  spansOK : ∀ g ∈ grps, SpansOK g.spans
+  untr : ∀ g ∈ grps, g.segIndex = 0 → g.trunc = 0
+  baseGe : ∀ g ∈ grps, g.trunc ≤ g.base
+  /-- until a group records its first truncation segment its spans cover the whole log -/
+  cover : ∀ g ∈ grps, g.openOK = true → g.segIndex = 0 → ∀ i, 0 < i → i ≤ g.last → Covered g.spans i
 
 structure Inv (s : S) : Prop where
   shape : Shape s
@@ -241,7 +255,7 @@ theorem inv_absent {s s' : S} (P : Segm → Bool)
     (himm : ∀ id ∈ s'.imm, id ∈ s.imm) (hinst : s'.installed = s.installed)
     (htab : s'.tables = s.tables) (hgr : s'.grps = s.grps)
     (hP : ∀ sg ∈ s.segs, P sg = true → sg.id ≠ s.active ∧ (∀ p ∈ sg.puts, p ∈ s.tables) ∧
-      (∀ r ∈ sg.raft, r.lo ≠ 0 → ∀ g ∈ s.grps, g.id = r.g → r.hi ≤ g.trunc))
+      (∀ r ∈ sg.raft, r.lo ≠ 0 → ∀ g ∈ s.grps, g.id = r.g → r.lhi ≤ g.trunc))
     (h : Inv s) : Inv s' := by
   obtain ⟨hs, hl, hk, hr⟩ := h
   refine ⟨⟨?_, ?_, ?_, ?_, ?_, ?_, ?_⟩, ⟨?_, ?_⟩, ?_, ?_⟩
@@ -296,9 +310,9 @@ theorem inv_absent {s s' : S} (P : Segm → Bool)
 theorem raftAllows_kept {c : SCfg} (hc : c.guardUntruncated = true) {sk : Sk} {grps : List Grp} {active : Nat}
     (hr : RaftInv sk grps active) {sg : Segm} (hmem : (sg.id, sg.raft) ∈ sk)
     (hra : raftAllows c grps sg = true) :
-    ∀ r ∈ sg.raft, r.lo ≠ 0 → ∀ g ∈ grps, g.id = r.g → r.hi ≤ g.trunc := by
+    ∀ r ∈ sg.raft, r.lo ≠ 0 → ∀ g ∈ grps, g.id = r.g → r.lhi ≤ g.trunc := by
   intro r hrm hlo g hg hid
-  rcases Nat.lt_or_ge g.trunc r.hi with hlt | hge
+  rcases Nat.lt_or_ge g.trunc r.lhi with hlt | hge
   · exfalso
     obtain ⟨hp, hsi⟩ := hr.ptr _ hmem r hrm hlo g hg hid hlt
     unfold raftAllows at hra
@@ -423,12 +437,16 @@ theorem raftInv_newSeg {sk : Sk} {grps : List Grp} {a a' : Nat} (h : RaftInv sk 
     rcases List.mem_append.mp he with h1 | h1
     · exact Or.inl h1
     · right; simpa using h1
-  refine ⟨h.uniq, ?_, ?_, ?_, ?_, ?_, ?_, ?_, ?_, h.cover⟩
+  refine ⟨h.uniq, ?_, ?_, ?_, ?_, ?_, ?_, ?_, ?_, ?_, ?_, h.spansOK, h.untr, h.baseGe, h.cover⟩
   · intro g hg; have := h.bound g hg; omega
   · intro e he
     rcases hmem e he with h1 | h1
     · have := h.idLe e h1; omega
     · subst h1; exact Nat.le_refl _
+  · intro e he
+    rcases hmem e he with h1 | h1
+    · exact h.idPos e h1
+    · subst h1; show 0 < a'; omega
   · intro e he r hr
     rcases hmem e he with h1 | h1
     · exact h.ptr e h1 r hr
@@ -450,6 +468,10 @@ theorem raftInv_newSeg {sk : Sk} {grps : List Grp} {a a' : Nat} (h : RaftInv sk 
   · intro e he r hr
     rcases hmem e he with h1 | h1
     · exact h.loLe e h1 r hr
+    · subst h1; cases hr
+  · intro e he r hr
+    rcases hmem e he with h1 | h1
+    · exact h.lhiLe e h1 r hr
     · subst h1; cases hr
   · intro g hg sp hsp
     obtain ⟨e, he, r, hr, hrest⟩ := h.span g hg sp hsp
@@ -638,7 +660,7 @@ theorem inv_watchdog (c : SCfg) (hc : c.guardUntruncated = true) (hw : c.wdCheck
   refine ⟨?_, h.lsm.inst sg hsg hinst, ?_⟩
   · have := h.shape.instLt _ hinst; omega
   · intro r hr hlo g hg hgid
-    rcases Nat.lt_or_ge g.trunc r.hi with hl | hge
+    rcases Nat.lt_or_ge g.trunc r.lhi with hl | hge
     · exfalso
       obtain ⟨hp, hsi⟩ := h.raft.ptr _ (mem_skel hsg) r hr hlo g hg hgid hl
       have hne := hall hc g hg hp
@@ -775,10 +797,7 @@ theorem kept_raftF {s s' : S} (r : RRec) (G : Grp → Grp) (hG : ∀ g, (G g).id
   rw [(hG g).2]
   exact hk sg hsg hp r' hr' hlo g hg hid
 
-/-! ### rapp -/
-
-def rappF (act : Nat) (g0 : Grp) (n : Nat) (g : Grp) : Grp :=
-  { g with last := g.last + n, ptrSeg := act, spans := g.spans ++ [(g0.last + 1, g0.last + n, act)] }
+/-! ### entry spans -/
 
 theorem pairwise_snoc {α : Type} {R : α → α → Prop} {l : List α} {a : α}
     (h : l.Pairwise R) (ha : ∀ x ∈ l, R x a) : (l ++ [a]).Pairwise R := by
@@ -787,52 +806,250 @@ theorem pairwise_snoc {α : Type} {R : α → α → Prop} {l : List α} {a : α
   intro x hx y hy
   simp at hy; subst hy; exact ha x hx
 
-theorem raftInv_rapp {sk : Sk} {grps : List Grp} {act : Nat} (h : RaftInv sk grps act) (hpos : 0 < act)
-    (hactE : ∃ e ∈ sk, e.1 = act) {g0 : Grp} (hg0 : g0 ∈ grps) (n : Nat) (hn : n ≠ 0) :
-    RaftInv (sk.map (addRec act ⟨g0.id, g0.last + 1, g0.last + n⟩))
-      (grps.map (grpF g0.id (rappF act g0 n))) act := by
-  -- facts about the group map
-  have hGid : ∀ g, (grpF g0.id (rappF act g0 n) g).id = g.id := by
+theorem takeWhile_imp {α : Type} {p : α → Bool} {l : List α} {x : α} (h : x ∈ l.takeWhile p) : p x = true := by
+  induction l with
+  | nil => cases h
+  | cons a t ih =>
+    by_cases ha : p a = true
+    · rw [List.takeWhile_cons_of_pos ha] at h
+      rcases List.mem_cons.mp h with h1 | h1
+      · rw [h1]; exact ha
+      · exact ih h1
+    · rw [List.takeWhile_cons_of_neg ha] at h; cases h
+
+/-- in an ordered span list, a span ending below `f` is in the kept prefix -/
+theorem mem_takeWhile_of_lt {spans : List (Nat × Nat × Nat)} (hok : SpansOK spans) {f : Nat}
+    {x : Nat × Nat × Nat} (hx : x ∈ spans) (hlt : x.2.1 < f) :
+    x ∈ spans.takeWhile (fun sp => decide (sp.2.1 < f)) := by
+  induction spans with
+  | nil => cases hx
+  | cons a t ih =>
+    obtain ⟨hs, hl⟩ := hok
+    rw [List.pairwise_cons] at hs
+    have hokt : SpansOK t := ⟨hs.2, fun sp hsp => hl sp (by simp [hsp])⟩
+    by_cases ha : a.2.1 < f
+    · rw [List.takeWhile_cons_of_pos (by simpa using ha)]
+      rcases List.mem_cons.mp hx with h1 | h1
+      · subst h1; simp
+      · exact List.mem_cons_of_mem _ (ih hokt h1)
+    · exfalso
+      rcases List.mem_cons.mp hx with h1 | h1
+      · subst h1; exact ha hlt
+      · have h2 := hs.1 x h1
+        have h3 := hl x (by simp [h1])
+        omega
+
+/-- in an ordered span list, a span that starts below `f` and reaches `f` is the first one cut -/
+theorem dropWhile_head {spans : List (Nat × Nat × Nat)} (hok : SpansOK spans) {f : Nat}
+    {x : Nat × Nat × Nat} (hx : x ∈ spans) (hlo : x.1 < f) (hhi : f ≤ x.2.1) :
+    ∃ rest, spans.dropWhile (fun sp => decide (sp.2.1 < f)) = x :: rest := by
+  induction spans with
+  | nil => cases hx
+  | cons a t ih =>
+    obtain ⟨hs, hl⟩ := hok
+    rw [List.pairwise_cons] at hs
+    have hokt : SpansOK t := ⟨hs.2, fun sp hsp => hl sp (by simp [hsp])⟩
+    by_cases ha : a.2.1 < f
+    · rw [List.dropWhile_cons_of_pos (by simpa using ha)]
+      rcases List.mem_cons.mp hx with h1 | h1
+      · subst h1; omega
+      · exact ih hokt h1
+    · rw [List.dropWhile_cons_of_neg (by simpa using ha)]
+      rcases List.mem_cons.mp hx with h1 | h1
+      · subst h1; exact ⟨t, rfl⟩
+      · exfalso
+        have h2 := hs.1 x h1
+        omega
+
+theorem mem_addSpan {spans : List (Nat × Nat × Nat)} {f l sg : Nat} {sp' : Nat × Nat × Nat}
+    (h : sp' ∈ addSpan spans f l sg) :
+    (sp' ∈ spans ∧ sp'.2.1 < f) ∨ (∃ sp ∈ spans, sp.1 < f ∧ sp' = (sp.1, f - 1, sp.2.2)) ∨ sp' = (f, l, sg) := by
+  unfold addSpan at h
+  rcases List.mem_append.mp h with h1 | h1
+  · rcases List.mem_append.mp h1 with h2 | h2
+    · left
+      refine ⟨(List.takeWhile_sublist _).subset h2, ?_⟩
+      have := takeWhile_imp h2
+      simpa using this
+    · right; left
+      cases hd : spans.dropWhile (fun sp => decide (sp.2.1 < f)) with
+      | nil => rw [hd] at h2; cases h2
+      | cons sp rest =>
+        rw [hd] at h2
+        simp only at h2
+        have hspm : sp ∈ spans := (List.dropWhile_sublist _).subset (by rw [hd]; simp)
+        split at h2
+        · rename_i hlt
+          simp at h2
+          exact ⟨sp, hspm, hlt, h2⟩
+        · cases h2
+  · right; right; simpa using h1
+
+theorem addSpan_ok {spans : List (Nat × Nat × Nat)} (hok : SpansOK spans) {f l sg : Nat} (hfl : f ≤ l) :
+    SpansOK (addSpan spans f l sg) := by
+  obtain ⟨hs, hl⟩ := hok
+  have hdecomp := List.takeWhile_append_dropWhile (p := fun sp : Nat × Nat × Nat => decide (sp.2.1 < f)) (l := spans)
+  have htw : ∀ x ∈ spans.takeWhile (fun sp => decide (sp.2.1 < f)), x.2.1 < f := by
+    intro x hx
+    have := takeWhile_imp hx
+    simpa using this
+  have hstw : (spans.takeWhile (fun sp => decide (sp.2.1 < f))).Pairwise (fun a b => a.2.1 < b.1) :=
+    List.Pairwise.sublist (List.takeWhile_sublist _) hs
+  unfold addSpan
+  cases hd : spans.dropWhile (fun sp => decide (sp.2.1 < f)) with
+  | nil =>
+    simp only [List.append_nil]
+    refine ⟨pairwise_snoc hstw (fun x hx => htw x hx), ?_⟩
+    intro sp hsp
+    rcases List.mem_append.mp hsp with h1 | h1
+    · exact hl sp ((List.takeWhile_sublist _).subset h1)
+    · simp at h1; subst h1; exact hfl
+  | cons sp rest =>
+    have hspm : sp ∈ spans := (List.dropWhile_sublist _).subset (by rw [hd]; simp)
+    have hbefore : ∀ x ∈ spans.takeWhile (fun sp => decide (sp.2.1 < f)), x.2.1 < sp.1 := by
+      intro x hx
+      rw [← hdecomp, hd, List.pairwise_append] at hs
+      exact hs.2.2 x hx sp (by simp)
+    simp only
+    split
+    · rename_i hlt
+      refine ⟨?_, ?_⟩
+      · apply pairwise_snoc
+        · exact pairwise_snoc hstw (fun x hx => hbefore x hx)
+        · intro x hx
+          rcases List.mem_append.mp hx with h1 | h1
+          · exact htw x h1
+          · simp at h1; subst h1; show f - 1 < f; omega
+      · intro x hx
+        rcases List.mem_append.mp hx with h1 | h1
+        · rcases List.mem_append.mp h1 with h2 | h2
+          · exact hl x ((List.takeWhile_sublist _).subset h2)
+          · simp at h2; subst h2; show sp.1 ≤ f - 1; omega
+        · simp at h1; subst h1; exact hfl
+    · simp only [List.append_nil]
+      refine ⟨pairwise_snoc hstw (fun x hx => htw x hx), ?_⟩
+      intro x hx
+      rcases List.mem_append.mp hx with h1 | h1
+      · exact hl x ((List.takeWhile_sublist _).subset h1)
+      · simp at h1; subst h1; exact hfl
+
+/-- an index below the new batch that was covered stays covered -/
+theorem addSpan_cover_old {spans : List (Nat × Nat × Nat)} (hok : SpansOK spans) {f l sg i : Nat}
+    (hi : i < f) (hc : Covered spans i) : Covered (addSpan spans f l sg) i := by
+  obtain ⟨sp, hsp, h1, h2⟩ := hc
+  by_cases hlt : sp.2.1 < f
+  · refine ⟨sp, ?_, h1, h2⟩
+    unfold addSpan
+    exact List.mem_append.mpr (Or.inl (List.mem_append.mpr (Or.inl (mem_takeWhile_of_lt hok hsp hlt))))
+  · obtain ⟨rest, hd⟩ := dropWhile_head (f := f) hok hsp (by omega) (by omega)
+    refine ⟨(sp.1, f - 1, sp.2.2), ?_, h1, by show i ≤ f - 1; omega⟩
+    unfold addSpan
+    rw [hd]
+    have hlo : sp.1 < f := by omega
+    simp [hlo]
+
+theorem addSpan_cover_new (spans : List (Nat × Nat × Nat)) {f l sg i : Nat} (h1 : f ≤ i) (h2 : i ≤ l) :
+    Covered (addSpan spans f l sg) i := by
+  refine ⟨(f, l, sg), ?_, h1, h2⟩
+  unfold addSpan
+  exact List.mem_append.mpr (Or.inr (by simp))
+
+/-! ### rover (append, possibly rewriting the tail) -/
+
+def roverF (act start n : Nat) (g : Grp) : Grp :=
+  { g with last := start + n - 1, ptrSeg := act, spans := addSpan g.spans start (start + n - 1) act }
+
+def cutE (gid start : Nat) (e : Nat × List RRec) : Nat × List RRec := (e.1, e.2.map (cutR gid start))
+
+theorem cutR_props (gid start : Nat) (r : RRec) :
+    (cutR gid start r).g = r.g ∧ (cutR gid start r).lo = r.lo ∧ (cutR gid start r).hi = r.hi ∧
+    (cutR gid start r).lhi ≤ r.lhi ∧ (r.g = gid → r.lo ≠ 0 → (cutR gid start r).lhi ≤ start - 1) := by
+  unfold cutR
+  split
+  · refine ⟨rfl, rfl, rfl, Nat.min_le_left _ _, fun _ _ => Nat.min_le_right _ _⟩
+  · rename_i hc
+    refine ⟨rfl, rfl, rfl, Nat.le_refl _, ?_⟩
+    intro hg hlo
+    exfalso; apply hc; simp [hg, hlo]
+
+theorem recLt_cut (gid start : Nat) {a b : RRec} (h : RecLt a b) : RecLt (cutR gid start a) (cutR gid start b) := by
+  intro h1 h2 h3
+  obtain ⟨ga, la, _, lha, _⟩ := cutR_props gid start a
+  obtain ⟨gb, lb, _, _, _⟩ := cutR_props gid start b
+  rw [la] at h1; rw [lb] at h2 ⊢; rw [ga, gb] at h3
+  have := h h1 h2 h3
+  omega
+
+theorem skel_rover (gid start act : Nat) (r : RRec) (segs : List Segm) :
+    skel ((segs.map (cutF gid start)).map (raftF act r)) = (skel segs).map (fun e => addRec act r (cutE gid start e)) := by
+  unfold skel
+  rw [List.map_map, List.map_map, List.map_map]
+  apply List.map_congr_left
+  intro sg _
+  simp only [Function.comp, raftF, addRec, cutF, cutE]
+  by_cases hc : (sg.id == act) = true <;> simp [hc]
+
+theorem mem_rover_rec {gid start act : Nat} {r r' : RRec} {e : Nat × List RRec}
+    (h : r' ∈ (addRec act r (cutE gid start e)).2) :
+    (∃ r0 ∈ e.2, r' = cutR gid start r0) ∨ (e.1 = act ∧ r' = r) := by
+  rcases mem_addRec h with h1 | ⟨h1, h2⟩
+  · left
+    obtain ⟨r0, hr0, rfl⟩ := List.mem_map.mp (show r' ∈ e.2.map (cutR gid start) from h1)
+    exact ⟨r0, hr0, rfl⟩
+  · right; exact ⟨h1, h2⟩
+
+theorem raftInv_rover {sk : Sk} {grps : List Grp} {act : Nat} (h : RaftInv sk grps act) (hpos : 0 < act)
+    (hactE : ∃ e ∈ sk, e.1 = act) {g0 : Grp} (hg0 : g0 ∈ grps) (start n : Nat) (hn : n ≠ 0)
+    (hb : g0.base < start) (hl : start ≤ g0.last + 1) :
+    RaftInv (sk.map (fun e => addRec act ⟨g0.id, start, start + n - 1, start + n - 1⟩ (cutE g0.id start e)))
+      (grps.map (grpF g0.id (roverF act start n))) act := by
+  have hGid : ∀ g, (grpF g0.id (roverF act start n) g).id = g.id := by
     intro g; unfold grpF; split <;> rfl
-  have hGtr : ∀ g, (grpF g0.id (rappF act g0 n) g).trunc = g.trunc := by
+  have hGtr : ∀ g, (grpF g0.id (roverF act start n) g).trunc = g.trunc := by
     intro g; unfold grpF; split <;> rfl
-  have hGsi : ∀ g, (grpF g0.id (rappF act g0 n) g).segIndex = g.segIndex := by
+  have hGsi : ∀ g, (grpF g0.id (roverF act start n) g).segIndex = g.segIndex := by
     intro g; unfold grpF; split <;> rfl
-  have hGop : ∀ g, (grpF g0.id (rappF act g0 n) g).openOK = g.openOK := by
+  have hGop : ∀ g, (grpF g0.id (roverF act start n) g).openOK = g.openOK := by
     intro g; unfold grpF; split <;> rfl
-  have hGlast : ∀ g, g.last ≤ (grpF g0.id (rappF act g0 n) g).last := by
-    intro g; unfold grpF; split
-    · show g.last ≤ g.last + n; omega
-    · exact Nat.le_refl _
-  have hGptr : ∀ g, (grpF g0.id (rappF act g0 n) g).ptrSeg = act ∨
-      (grpF g0.id (rappF act g0 n) g).ptrSeg = g.ptrSeg := by
+  have hGbase : ∀ g, (grpF g0.id (roverF act start n) g).base = g.base := by
+    intro g; unfold grpF; split <;> rfl
+  have hGptr : ∀ g, (grpF g0.id (roverF act start n) g).ptrSeg = act ∨
+      (grpF g0.id (roverF act start n) g).ptrSeg = g.ptrSeg := by
     intro g; unfold grpF; split
     · left; rfl
     · right; rfl
   have hsame : ∀ g ∈ grps, g.id = g0.id → g = g0 := fun g hg hid => h.uniq g hg g0 hg0 hid
-  refine ⟨uniq_map hGid h.uniq, ?_, ?_, ?_, ?_, ?_, ?_, ?_, ?_, ?_⟩
+  have htr0 : g0.trunc < start := by have := h.baseGe g0 hg0; omega
+  have hstart : 1 ≤ start := by omega
+  have hF : ∀ e, (addRec act ⟨g0.id, start, start + n - 1, start + n - 1⟩ (cutE g0.id start e)).1 = e.1 := by
+    intro e; rw [addRec_fst]; rfl
+  refine ⟨uniq_map hGid h.uniq, ?_, ?_, ?_, ?_, ?_, ?_, ?_, ?_, ?_, ?_, ?_, ?_, ?_, ?_⟩
   · -- bound
     intro g' hg'
     obtain ⟨g, hg, rfl⟩ := List.mem_map.mp hg'
-    have hb := h.bound g hg
+    have hbd := h.bound g hg
     rw [hGsi]
-    refine ⟨?_, hb.2⟩
+    refine ⟨?_, hbd.2⟩
     rcases hGptr g with h1 | h1 <;> rw [h1]
     · exact Nat.le_refl _
-    · exact hb.1
-  · -- idLe
-    intro e' he'
+    · exact hbd.1
+  · intro e' he'
     obtain ⟨e, he, rfl⟩ := List.mem_map.mp he'
-    rw [addRec_fst]; exact h.idLe e he
+    rw [hF]; exact h.idLe e he
+  · intro e' he'
+    obtain ⟨e, he, rfl⟩ := List.mem_map.mp he'
+    rw [hF]; exact h.idPos e he
   · -- ptr
     intro e' he' r' hr' hlo g' hg' hid htr
     obtain ⟨e, he, rfl⟩ := List.mem_map.mp he'
     obtain ⟨g, hg, rfl⟩ := List.mem_map.mp hg'
     rw [hGid] at hid
     rw [hGtr] at htr
-    rw [hGsi, addRec_fst]
-    rcases mem_addRec hr' with h1 | ⟨h1, h2⟩
-    · obtain ⟨hp, hsi⟩ := h.ptr e he r' h1 hlo g hg hid htr
+    rw [hGsi, hF]
+    rcases mem_rover_rec hr' with ⟨r0, hr0, rfl⟩ | ⟨h1, h2⟩
+    · obtain ⟨c1, c2, _, c4, _⟩ := cutR_props g0.id start r0
+      rw [c2] at hlo; rw [c1] at hid
+      obtain ⟨hp, hsi⟩ := h.ptr e he r0 hr0 hlo g hg hid (by omega)
       refine ⟨?_, hsi⟩
       rcases hGptr g with h3 | h3 <;> rw [h3]
       · omega
@@ -847,96 +1064,167 @@ theorem raftInv_rapp {sk : Sk} {grps : List Grp} {act : Nat} (h : RaftInv sk grp
     intro eA' heA' eB' heB' rA hrA rB hrB hloA hloB hgAB hlt
     obtain ⟨eA, heA, rfl⟩ := List.mem_map.mp heA'
     obtain ⟨eB, heB, rfl⟩ := List.mem_map.mp heB'
-    rw [addRec_fst, addRec_fst] at hlt
-    rcases mem_addRec hrA with h1 | ⟨h1, h2⟩
-    · rcases mem_addRec hrB with h3 | ⟨h3, h4⟩
-      · exact h.cross eA heA eB heB rA h1 rB h3 hloA hloB hgAB hlt
+    rw [hF, hF] at hlt
+    rcases mem_rover_rec hrA with ⟨a0, ha0, rfl⟩ | ⟨h1, _⟩
+    · obtain ⟨a1, a2, _, a4, a5⟩ := cutR_props g0.id start a0
+      rcases mem_rover_rec hrB with ⟨b0, hb0, rfl⟩ | ⟨_, h4⟩
+      · obtain ⟨b1, b2, _, _, _⟩ := cutR_props g0.id start b0
+        rw [a2] at hloA; rw [b2] at hloB ⊢; rw [a1, b1] at hgAB
+        have := h.cross eA heA eB heB a0 ha0 b0 hb0 hloA hloB hgAB hlt
+        omega
       · subst h4
-        have := h.leLast eA heA rA h1 hloA g0 hg0 hgAB.symm
-        show rA.hi < g0.last + 1
+        rw [a2] at hloA; rw [a1] at hgAB
+        have := a5 hgAB hloA
+        show (cutR g0.id start a0).lhi < start
         omega
     · have := h.idLe eB heB
       omega
   · -- within
     intro e' he'
     obtain ⟨e, he, rfl⟩ := List.mem_map.mp he'
-    unfold addRec
+    have hmapped : (e.2.map (cutR g0.id start)).Pairwise RecLt := by
+      rw [List.pairwise_map]
+      exact (h.within e he).imp (fun hab => recLt_cut g0.id start hab)
+    unfold addRec cutE
+    simp only
     split
-    · apply pairwise_snoc (h.within e he)
+    · apply pairwise_snoc hmapped
       intro x hx hlox _ hgx
-      have := h.leLast e he x hx hlox g0 hg0 hgx.symm
-      show x.hi < g0.last + 1
+      obtain ⟨x0, _, rfl⟩ := List.mem_map.mp hx
+      obtain ⟨c1, c2, _, _, c5⟩ := cutR_props g0.id start x0
+      rw [c2] at hlox; rw [c1] at hgx
+      have := c5 hgx hlox
+      show (cutR g0.id start x0).lhi < start
       omega
-    · exact h.within e he
+    · exact hmapped
   · -- leLast
     intro e' he' r' hr' hlo g' hg' hid
     obtain ⟨e, he, rfl⟩ := List.mem_map.mp he'
     obtain ⟨g, hg, rfl⟩ := List.mem_map.mp hg'
     rw [hGid] at hid
-    rcases mem_addRec hr' with h1 | ⟨_, h2⟩
-    · have := h.leLast e he r' h1 hlo g hg hid
-      have := hGlast g
-      omega
+    rcases mem_rover_rec hr' with ⟨r0, hr0, rfl⟩ | ⟨_, h2⟩
+    · obtain ⟨c1, c2, _, c4, c5⟩ := cutR_props g0.id start r0
+      rw [c2] at hlo; rw [c1] at hid
+      by_cases hgid : g.id = g0.id
+      · have hgg : g = g0 := hsame g hg hgid
+        subst hgg
+        rw [grpF_eq rfl]
+        show (cutR g.id start r0).lhi ≤ start + n - 1
+        have := c5 hid.symm hlo
+        omega
+      · rw [grpF_ne hgid]
+        have := h.leLast e he r0 hr0 hlo g hg hid
+        omega
     · subst h2
       have hgg : g = g0 := hsame g hg hid
       subst hgg
       rw [grpF_eq rfl]
-      show g.last + n ≤ g.last + n
       exact Nat.le_refl _
   · -- loLe
     intro e' he' r' hr' hlo
     obtain ⟨e, he, rfl⟩ := List.mem_map.mp he'
-    rcases mem_addRec hr' with h1 | ⟨_, h2⟩
-    · exact h.loLe e he r' h1 hlo
+    rcases mem_rover_rec hr' with ⟨r0, hr0, rfl⟩ | ⟨_, h2⟩
+    · obtain ⟨_, c2, c3, _, _⟩ := cutR_props g0.id start r0
+      rw [c2] at hlo ⊢; rw [c3]
+      exact h.loLe e he r0 hr0 hlo
     · subst h2
-      show g0.last + 1 ≤ g0.last + n
+      show start ≤ start + n - 1
       omega
+  · -- lhiLe
+    intro e' he' r' hr' hlo
+    obtain ⟨e, he, rfl⟩ := List.mem_map.mp he'
+    rcases mem_rover_rec hr' with ⟨r0, hr0, rfl⟩ | ⟨_, h2⟩
+    · obtain ⟨_, c2, c3, c4, _⟩ := cutR_props g0.id start r0
+      rw [c2] at hlo; rw [c3]
+      have := h.lhiLe e he r0 hr0 hlo
+      omega
+    · subst h2
+      exact Nat.le_refl _
   · -- span
-    intro g' hg' sp hsp
+    intro g' hg' sp' hsp'
     obtain ⟨g, hg, rfl⟩ := List.mem_map.mp hg'
     rw [hGid]
-    have hold : ∀ sp ∈ g.spans, ∃ e ∈ sk.map (addRec act ⟨g0.id, g0.last + 1, g0.last + n⟩), ∃ r ∈ e.2,
-        e.1 = sp.2.2 ∧ r.g = g.id ∧ r.lo ≠ 0 ∧ r.lo ≤ sp.1 ∧ r.hi = sp.2.1 := by
+    have hold : ∀ sp ∈ g.spans, ∃ e ∈ sk.map (fun e => addRec act ⟨g0.id, start, start + n - 1, start + n - 1⟩ (cutE g0.id start e)),
+        ∃ r ∈ e.2, e.1 = sp.2.2 ∧ r.g = g.id ∧ r.lo ≠ 0 ∧ r.lo ≤ sp.1 := by
       intro sp hsp
-      obtain ⟨e, he, r, hr, hrest⟩ := h.span g hg sp hsp
-      refine ⟨addRec act _ e, List.mem_map.mpr ⟨e, he, rfl⟩, r, mem_addRec_of_mem hr, ?_⟩
-      rw [addRec_fst]; exact hrest
+      obtain ⟨e, he, r, hr, h1, h2, h3, h4⟩ := h.span g hg sp hsp
+      obtain ⟨c1, c2, _, _, _⟩ := cutR_props g0.id start r
+      refine ⟨_, List.mem_map.mpr ⟨e, he, rfl⟩, cutR g0.id start r, ?_, ?_, ?_, ?_, ?_⟩
+      · apply mem_addRec_of_mem
+        exact List.mem_map.mpr ⟨r, hr, rfl⟩
+      · rw [hF]; exact h1
+      · rw [c1]; exact h2
+      · rw [c2]; exact h3
+      · rw [c2]; exact h4
     by_cases hid : g.id = g0.id
-    · rw [grpF_eq hid] at hsp
-      rcases List.mem_append.mp hsp with h1 | h1
-      · exact hold sp h1
-      · simp at h1; subst h1
-        obtain ⟨e, he, hea⟩ := hactE
-        refine ⟨addRec act _ e, List.mem_map.mpr ⟨e, he, rfl⟩, _, mem_addRec_new hea, ?_⟩
-        rw [addRec_fst]
-        exact ⟨hea, hid.symm, by show g0.last + 1 ≠ 0; omega, Nat.le_refl _, rfl⟩
-    · rw [grpF_ne hid] at hsp
-      exact hold sp hsp
+    · rw [grpF_eq hid] at hsp'
+      rcases mem_addSpan (show sp' ∈ addSpan g.spans start (start + n - 1) act from hsp') with ⟨h1, _⟩ | ⟨sp, hsp, _, rfl⟩ | rfl
+      · exact hold sp' h1
+      · obtain ⟨e, he, r, hr, h1, h2, h3, h4⟩ := hold sp hsp
+        exact ⟨e, he, r, hr, h1, h2, h3, h4⟩
+      · obtain ⟨e, he, hea⟩ := hactE
+        refine ⟨_, List.mem_map.mpr ⟨e, he, rfl⟩, _, mem_addRec_new (show (cutE g0.id start e).1 = act from hea), ?_⟩
+        rw [hF]
+        exact ⟨hea, hid.symm, by show start ≠ 0; omega, Nat.le_refl _⟩
+    · rw [grpF_ne hid] at hsp'
+      exact hold sp' hsp'
+  · -- spansOK
+    intro g' hg'
+    obtain ⟨g, hg, rfl⟩ := List.mem_map.mp hg'
+    by_cases hid : g.id = g0.id
+    · rw [grpF_eq hid]
+      exact addSpan_ok (h.spansOK g hg) (by omega)
+    · rw [grpF_ne hid]; exact h.spansOK g hg
+  · -- untr
+    intro g' hg' hsi
+    obtain ⟨g, hg, rfl⟩ := List.mem_map.mp hg'
+    rw [hGsi] at hsi; rw [hGtr]
+    exact h.untr g hg hsi
+  · -- baseGe
+    intro g' hg'
+    obtain ⟨g, hg, rfl⟩ := List.mem_map.mp hg'
+    rw [hGtr, hGbase]; exact h.baseGe g hg
   · -- cover
-    intro g' hg' hop i hlo hhi
+    intro g' hg' hop hsi i hi0 hhi
     obtain ⟨g, hg, rfl⟩ := List.mem_map.mp hg'
     rw [hGop] at hop
-    rw [hGtr] at hlo
+    rw [hGsi] at hsi
     by_cases hid : g.id = g0.id
     · have hgg : g = g0 := hsame g hg hid
       subst hgg
       rw [grpF_eq rfl] at hhi ⊢
-      by_cases hi : i ≤ g.last
-      · obtain ⟨sp, hsp, h1, h2⟩ := h.cover g hg hop i hlo hi
-        exact ⟨sp, List.mem_append.mpr (Or.inl hsp), h1, h2⟩
-      · refine ⟨(g.last + 1, g.last + n, act), List.mem_append.mpr (Or.inr (by simp)), ?_, ?_⟩
-        · show g.last + 1 ≤ i; omega
-        · exact hhi
+      have hhi' : i ≤ start + n - 1 := hhi
+      show Covered (addSpan g.spans start (start + n - 1) act) i
+      by_cases his : i < start
+      · exact addSpan_cover_old (h.spansOK g hg) his (h.cover g hg hop hsi i hi0 (by omega))
+      · exact addSpan_cover_new _ (by omega) hhi'
     · rw [grpF_ne hid] at hhi ⊢
-      exact h.cover g hg hop i hlo hhi
+      exact h.cover g hg hop hsi i hi0 hhi
 
 theorem active_in_skel {s : S} (hs : Shape s) : ∃ e ∈ skel s.segs, e.1 = s.active := by
   obtain ⟨pre, a, hsg, hid, _⟩ := hs.lastAct
   have ha : a ∈ s.segs := by rw [hsg]; simp
   exact ⟨(a.id, a.raft), mem_skel ha, hid⟩
 
-theorem inv_rapp (s : S) (gid n : Nat) (h : Inv s) : Inv (rapp s gid n).1 := by
-  unfold rapp
+def roverSegF (gid start act : Nat) (r : RRec) (sg : Segm) : Segm := raftF act r (cutF gid start sg)
+
+theorem roverSegF_props (gid start act : Nat) (r : RRec) (sg : Segm) :
+    (roverSegF gid start act r sg).id = sg.id ∧ (roverSegF gid start act r sg).puts = sg.puts ∧
+    (roverSegF gid start act r sg).present = sg.present := by
+  unfold roverSegF
+  rw [raftF_id, raftF_puts, raftF_present]
+  exact ⟨rfl, rfl, rfl⟩
+
+def roverSt (s : S) (gid start n : Nat) : S :=
+  { s with
+      segs := modSeg (s.segs.map (cutF gid start)) s.active
+        (fun sg => { sg with raft := sg.raft ++ [⟨gid, start, start + n - 1, start + n - 1⟩] }),
+      grps := modGrp s.grps gid (fun g =>
+        { g with last := start + n - 1, ptrSeg := s.active,
+                 spans := addSpan g.spans start (start + n - 1) s.active }) }
+
+theorem inv_rover (s : S) (gid start n : Nat) (h : Inv s) : Inv (rover s gid start n).1 := by
+  unfold rover
   split
   · exact h
   · rename_i g hfind
@@ -947,50 +1235,90 @@ theorem inv_rapp (s : S) (gid n : Nat) (h : Inv s) : Inv (rapp s gid n).1 := by
     · split
       · exact h
       · rename_i hn
-        obtain ⟨hs, hl, hk, hr⟩ := h
-        have hsl := shape_lsm_map (s := s)
-          (s' := { s with segs := s.segs.map (raftF s.active ⟨g.id, g.last + 1, g.last + n⟩),
-                          grps := s.grps.map (grpF g.id (rappF s.active g n)) })
-          (raftF s.active ⟨g.id, g.last + 1, g.last + n⟩)
-          (fun sg => ⟨raftF_id _ _ sg, raftF_puts _ _ sg, raftF_present _ _ sg⟩) rfl rfl rfl rfl rfl rfl hs hl
-        refine ⟨hsl.1, hsl.2, ?_, ?_⟩
-        · refine kept_raftF (s := s) ⟨g.id, g.last + 1, g.last + n⟩ (grpF g.id (rappF s.active g n)) ?_ rfl rfl hs hk
-          intro x; unfold grpF; split <;> exact ⟨rfl, rfl⟩
-        · show RaftInv (skel (s.segs.map (raftF s.active ⟨g.id, g.last + 1, g.last + n⟩)))
-            (s.grps.map (grpF g.id (rappF s.active g n))) s.active
-          rw [skel_raftF]
-          exact raftInv_rapp hr hs.actPos (active_in_skel hs) hg n hn
+        split
+        · exact h
+        · rename_i hcond
+          have hb : g.base < start := by omega
+          have hl : start ≤ g.last + 1 := by omega
+          obtain ⟨hs, hlm, hk, hr⟩ := h
+          have hsegs : modSeg (s.segs.map (cutF g.id start)) s.active
+                (fun sg => { sg with raft := sg.raft ++ [⟨g.id, start, start + n - 1, start + n - 1⟩] }) =
+              s.segs.map (roverSegF g.id start s.active ⟨g.id, start, start + n - 1, start + n - 1⟩) := by
+            show (s.segs.map (cutF g.id start)).map (raftF s.active _) = _
+            rw [List.map_map]; rfl
+          show Inv (roverSt s g.id start n)
+          have hsl := shape_lsm_map (s := s) (s' := roverSt s g.id start n)
+            (roverSegF g.id start s.active ⟨g.id, start, start + n - 1, start + n - 1⟩)
+            (fun sg => roverSegF_props _ _ _ _ sg) hsegs rfl rfl rfl rfl rfl hs hlm
+          refine ⟨hsl.1, hsl.2, ?_, ?_⟩
+          · -- Kept
+            intro x hx hp r' hr' hlo g' hg' hid'
+            have hx' : x ∈ s.segs.map (roverSegF g.id start s.active ⟨g.id, start, start + n - 1, start + n - 1⟩) := by
+              rw [← hsegs]; exact hx
+            obtain ⟨sg, hsg, rfl⟩ := mem_map_seg hx'
+            rw [(roverSegF_props _ _ _ _ sg).2.2] at hp
+            have hne : sg.id ≠ s.active := by
+              intro heq; rw [hs.actPresent hsg heq] at hp; cases hp
+            have hraft : (roverSegF g.id start s.active ⟨g.id, start, start + n - 1, start + n - 1⟩ sg).raft =
+                sg.raft.map (cutR g.id start) := by
+              unfold roverSegF
+              rw [raftF_other _ (show (cutF g.id start sg).id ≠ s.active from hne)]
+              rfl
+            rw [hraft] at hr'
+            obtain ⟨r0, hr0, rfl⟩ := List.mem_map.mp hr'
+            obtain ⟨c1, c2, _, c4, _⟩ := cutR_props g.id start r0
+            rw [c2] at hlo; rw [c1] at hid'
+            obtain ⟨g1, hg1, rfl⟩ := List.mem_map.mp (show g' ∈ s.grps.map (grpF g.id (roverF s.active start n)) from hg')
+            have hid1 : (grpF g.id (roverF s.active start n) g1).id = g1.id := by unfold grpF; split <;> rfl
+            have htr1 : (grpF g.id (roverF s.active start n) g1).trunc = g1.trunc := by unfold grpF; split <;> rfl
+            rw [hid1] at hid'
+            rw [htr1]
+            have := hk sg hsg hp r0 hr0 hlo g1 hg1 hid'
+            omega
+          · have key := raftInv_rover hr hs.actPos (active_in_skel hs) hg start n hn hb hl
+            rw [← skel_rover] at key
+            exact key
+
+theorem inv_rapp (s : S) (gid n : Nat) (h : Inv s) : Inv (rapp s gid n).1 := by
+  unfold rapp
+  split
+  · exact h
+  · exact inv_rover s gid _ n h
 
 /-! ### rhs -/
 
 def rhsF (act : Nat) (g : Grp) : Grp := { g with ptrSeg := act }
 
 theorem raftInv_rhs {sk : Sk} {grps : List Grp} {act : Nat} (h : RaftInv sk grps act) (hpos : 0 < act)
-    (gid : Nat) : RaftInv (sk.map (addRec act ⟨gid, 0, 0⟩)) (grps.map (grpF gid (rhsF act))) act := by
+    (gid : Nat) : RaftInv (sk.map (addRec act ⟨gid, 0, 0, 0⟩)) (grps.map (grpF gid (rhsF act))) act := by
   have hG : ∀ g, (grpF gid (rhsF act) g).id = g.id ∧ (grpF gid (rhsF act) g).trunc = g.trunc ∧
       (grpF gid (rhsF act) g).segIndex = g.segIndex ∧ (grpF gid (rhsF act) g).openOK = g.openOK ∧
       (grpF gid (rhsF act) g).last = g.last ∧ (grpF gid (rhsF act) g).spans = g.spans ∧
+      (grpF gid (rhsF act) g).base = g.base ∧
       ((grpF gid (rhsF act) g).ptrSeg = act ∨ (grpF gid (rhsF act) g).ptrSeg = g.ptrSeg) := by
     intro g; unfold grpF; split
-    · exact ⟨rfl, rfl, rfl, rfl, rfl, rfl, Or.inl rfl⟩
-    · exact ⟨rfl, rfl, rfl, rfl, rfl, rfl, Or.inr rfl⟩
-  have hold : ∀ {r' : RRec} {e : Nat × List RRec}, r' ∈ (addRec act ⟨gid, 0, 0⟩ e).2 → r'.lo ≠ 0 → r' ∈ e.2 := by
+    · exact ⟨rfl, rfl, rfl, rfl, rfl, rfl, rfl, Or.inl rfl⟩
+    · exact ⟨rfl, rfl, rfl, rfl, rfl, rfl, rfl, Or.inr rfl⟩
+  have hold : ∀ {r' : RRec} {e : Nat × List RRec}, r' ∈ (addRec act ⟨gid, 0, 0, 0⟩ e).2 → r'.lo ≠ 0 → r' ∈ e.2 := by
     intro r' e hr' hlo
     rcases mem_addRec hr' with h1 | ⟨_, h2⟩
     · exact h1
     · subst h2; exact absurd rfl hlo
-  refine ⟨uniq_map (fun g => (hG g).1) h.uniq, ?_, ?_, ?_, ?_, ?_, ?_, ?_, ?_, ?_⟩
+  refine ⟨uniq_map (fun g => (hG g).1) h.uniq, ?_, ?_, ?_, ?_, ?_, ?_, ?_, ?_, ?_, ?_, ?_, ?_, ?_, ?_⟩
   · intro g' hg'
     obtain ⟨g, hg, rfl⟩ := List.mem_map.mp hg'
     have hb := h.bound g hg
     rw [(hG g).2.2.1]
     refine ⟨?_, hb.2⟩
-    rcases (hG g).2.2.2.2.2.2 with h1 | h1 <;> rw [h1]
+    rcases (hG g).2.2.2.2.2.2.2 with h1 | h1 <;> rw [h1]
     · exact Nat.le_refl _
     · exact hb.1
   · intro e' he'
     obtain ⟨e, he, rfl⟩ := List.mem_map.mp he'
     rw [addRec_fst]; exact h.idLe e he
+  · intro e' he'
+    obtain ⟨e, he, rfl⟩ := List.mem_map.mp he'
+    rw [addRec_fst]; exact h.idPos e he
   · intro e' he' r' hr' hlo g' hg' hid htr
     obtain ⟨e, he, rfl⟩ := List.mem_map.mp he'
     obtain ⟨g, hg, rfl⟩ := List.mem_map.mp hg'
@@ -999,7 +1327,7 @@ theorem raftInv_rhs {sk : Sk} {grps : List Grp} {act : Nat} (h : RaftInv sk grps
     rw [(hG g).2.2.1, addRec_fst]
     obtain ⟨hp, hsi⟩ := h.ptr e he r' (hold hr' hlo) hlo g hg hid htr
     refine ⟨?_, hsi⟩
-    rcases (hG g).2.2.2.2.2.2 with h3 | h3 <;> rw [h3]
+    rcases (hG g).2.2.2.2.2.2.2 with h3 | h3 <;> rw [h3]
     · omega
     · exact hp
   · intro eA' heA' eB' heB' rA hrA rB hrB hloA hloB hgAB hlt
@@ -1024,6 +1352,9 @@ theorem raftInv_rhs {sk : Sk} {grps : List Grp} {act : Nat} (h : RaftInv sk grps
   · intro e' he' r' hr' hlo
     obtain ⟨e, he, rfl⟩ := List.mem_map.mp he'
     exact h.loLe e he r' (hold hr' hlo) hlo
+  · intro e' he' r' hr' hlo
+    obtain ⟨e, he, rfl⟩ := List.mem_map.mp he'
+    exact h.lhiLe e he r' (hold hr' hlo) hlo
   · intro g' hg' sp hsp
     obtain ⟨g, hg, rfl⟩ := List.mem_map.mp hg'
     rw [(hG g).2.2.2.2.2.1] at hsp
@@ -1031,13 +1362,27 @@ theorem raftInv_rhs {sk : Sk} {grps : List Grp} {act : Nat} (h : RaftInv sk grps
     obtain ⟨e, he, r, hr, hrest⟩ := h.span g hg sp hsp
     refine ⟨addRec act _ e, List.mem_map.mpr ⟨e, he, rfl⟩, r, mem_addRec_of_mem hr, ?_⟩
     rw [addRec_fst]; exact hrest
-  · intro g' hg' hop i hlo hhi
+  · intro g' hg'
+    obtain ⟨g, hg, rfl⟩ := List.mem_map.mp hg'
+    rw [(hG g).2.2.2.2.2.1]; exact h.spansOK g hg
+  · intro g' hg' hsi
+    obtain ⟨g, hg, rfl⟩ := List.mem_map.mp hg'
+    rw [(hG g).2.2.1] at hsi; rw [(hG g).2.1]
+    exact h.untr g hg hsi
+  · intro g' hg'
+    obtain ⟨g, hg, rfl⟩ := List.mem_map.mp hg'
+    rw [(hG g).2.1, (hG g).2.2.2.2.2.2.1]; exact h.baseGe g hg
+  · intro g' hg' hop hsi i hi0 hhi
     obtain ⟨g, hg, rfl⟩ := List.mem_map.mp hg'
     rw [(hG g).2.2.2.1] at hop
-    rw [(hG g).2.1] at hlo
+    rw [(hG g).2.2.1] at hsi
     rw [(hG g).2.2.2.2.1] at hhi
     rw [(hG g).2.2.2.2.2.1]
-    exact h.cover g hg hop i hlo hhi
+    exact h.cover g hg hop hsi i hi0 hhi
+
+theorem kept_raftF0 {s s' : S} (r : RRec) (G : Grp → Grp) (hG : ∀ g, (G g).id = g.id ∧ (G g).trunc = g.trunc)
+    (hsegs : s'.segs = s.segs.map (raftF s.active r)) (hgr : s'.grps = s.grps.map G)
+    (hs : Shape s) (hk : Kept s) : Kept s' := kept_raftF r G hG hsegs hgr hs hk
 
 theorem inv_rhs (s : S) (gid : Nat) (h : Inv s) : Inv (rhs s gid).1 := by
   unfold rhs
@@ -1047,14 +1392,14 @@ theorem inv_rhs (s : S) (gid : Nat) (h : Inv s) : Inv (rhs s gid).1 := by
     · exact h
     · obtain ⟨hs, hl, hk, hr⟩ := h
       have hsl := shape_lsm_map (s := s)
-        (s' := { s with segs := s.segs.map (raftF s.active ⟨gid, 0, 0⟩),
+        (s' := { s with segs := s.segs.map (raftF s.active ⟨gid, 0, 0, 0⟩),
                         grps := s.grps.map (grpF gid (rhsF s.active)) })
-        (raftF s.active ⟨gid, 0, 0⟩)
+        (raftF s.active ⟨gid, 0, 0, 0⟩)
         (fun sg => ⟨raftF_id _ _ sg, raftF_puts _ _ sg, raftF_present _ _ sg⟩) rfl rfl rfl rfl rfl rfl hs hl
       refine ⟨hsl.1, hsl.2, ?_, ?_⟩
-      · refine kept_raftF (s := s) ⟨gid, 0, 0⟩ (grpF gid (rhsF s.active)) ?_ rfl rfl hs hk
+      · refine kept_raftF (s := s) ⟨gid, 0, 0, 0⟩ (grpF gid (rhsF s.active)) ?_ rfl rfl hs hk
         intro x; unfold grpF; split <;> exact ⟨rfl, rfl⟩
-      · show RaftInv (skel (s.segs.map (raftF s.active ⟨gid, 0, 0⟩)))
+      · show RaftInv (skel (s.segs.map (raftF s.active ⟨gid, 0, 0, 0⟩)))
           (s.grps.map (grpF gid (rhsF s.active))) s.active
         rw [skel_raftF]
         exact raftInv_rhs hr hs.actPos gid
@@ -1086,31 +1431,78 @@ theorem pruneSpans_mem {spans : List (Nat × Nat × Nat)} {k : Nat} {sp : Nat ×
   rw [pruneSpans_eq]
   exact List.mem_map.mpr ⟨sp, List.mem_filter.mpr ⟨h, by simpa using hk⟩, rfl⟩
 
+theorem pruneSpans_ok {spans : List (Nat × Nat × Nat)} (hok : SpansOK spans) (k : Nat) :
+    SpansOK (pruneSpans spans k) := by
+  obtain ⟨hs, hl⟩ := hok
+  refine ⟨?_, ?_⟩
+  · rw [pruneSpans_eq, List.pairwise_map]
+    refine (List.Pairwise.filter _ hs).imp ?_
+    intro a b hab
+    obtain ⟨a1, _, _, _⟩ := pruneOne_props k a
+    obtain ⟨_, _, b3, _⟩ := pruneOne_props k b
+    rw [a1]; omega
+  · intro sp' hsp'
+    obtain ⟨sp, hsp, hk, rfl⟩ := mem_pruneSpans hsp'
+    obtain ⟨p1, _, _, p4⟩ := pruneOne_props k sp
+    have := hl sp hsp
+    rw [p1]
+    rcases p4 with p4 | p4 <;> rw [p4] <;> omega
+
+theorem pruneSpans_cover {spans : List (Nat × Nat × Nat)} {k i : Nat} (hki : k < i) (hc : Covered spans i) :
+    Covered (pruneSpans spans k) i := by
+  obtain ⟨sp, hsp, h1, h2⟩ := hc
+  obtain ⟨p1, _, _, p4⟩ := pruneOne_props k sp
+  refine ⟨pruneOne k sp, pruneSpans_mem hsp (by omega), ?_, by rw [p1]; exact h2⟩
+  rcases p4 with p4 | p4 <;> rw [p4] <;> omega
+
 def rtruncF (k sgm : Nat) (g : Grp) : Grp :=
   { g with base := max g.base k, trunc := k, segIndex := sgm, spans := pruneSpans g.spans k }
 
-/-- the segment `compactTo(k)` records: the one holding entry `k` -/
+/-- the segment `compactTo(k)` records -/
 def truncSeg (g0 : Grp) (k : Nat) : Nat :=
   match spanSeg g0.spans k with
   | some x => x
   | none => if g0.segIndex ≠ 0 then g0.segIndex else g0.ptrSeg
 
-theorem truncSeg_spec {sk : Sk} {grps : List Grp} {act : Nat} (h : RaftInv sk grps act) {g0 : Grp}
-    (hg0 : g0 ∈ grps) (hop : g0.openOK = true) {k : Nat} (hk1 : g0.trunc < k) (hk2 : k ≤ g0.last) :
-    ∃ sp ∈ g0.spans, sp.1 ≤ k ∧ k ≤ sp.2.1 ∧ truncSeg g0 k = sp.2.2 := by
-  obtain ⟨sp0, hsp0, ha, hb⟩ := h.cover g0 hg0 hop k hk1 hk2
+/-- the recorded truncation segment is a real one and is not above any segment that still holds
+a live entry of the group above `k` -/
+theorem truncSeg_sound {sk : Sk} {grps : List Grp} {act : Nat} (h : RaftInv sk grps act) {g0 : Grp}
+    (hg0 : g0 ∈ grps) (hop : g0.openOK = true) {k : Nat} (hk1 : g0.trunc < k) (hk2 : k ≤ g0.last)
+    (hptr : g0.ptrSeg ≠ 0) :
+    truncSeg g0 k ≠ 0 ∧ truncSeg g0 k ≤ act ∧
+    ∀ e ∈ sk, ∀ r ∈ e.2, r.lo ≠ 0 → r.g = g0.id → k < r.lhi → truncSeg g0 k ≤ e.1 := by
   unfold truncSeg spanSeg
   cases hf : g0.spans.find? (fun sp => decide (sp.1 ≤ k) && decide (k ≤ sp.2.1)) with
-  | none =>
-    exfalso
-    rw [List.find?_eq_none] at hf
-    have := hf sp0 hsp0
-    simp [ha, hb] at this
-  | some sp =>
+  | some sp1 =>
     have hmem := List.mem_of_find?_eq_some hf
     have hp := List.find?_some hf
     simp only [Bool.and_eq_true, decide_eq_true_eq] at hp
-    exact ⟨sp, hmem, hp.1, hp.2, rfl⟩
+    obtain ⟨e0, he0, r0, hr0, he0id, hr0g, hr0lo, hr0le⟩ := h.span g0 hg0 sp1 hmem
+    simp only [Option.map_some]
+    refine ⟨?_, ?_, ?_⟩
+    · rw [← he0id]; have := h.idPos e0 he0; omega
+    · rw [← he0id]; exact h.idLe e0 he0
+    · intro e he r hr hlo hg hlt
+      rw [← he0id]
+      rcases Nat.lt_or_ge e.1 e0.1 with hlt2 | hge
+      · exfalso
+        have := h.cross e he e0 he0 r hr r0 hr0 hlo hr0lo (by rw [hg, hr0g]) hlt2
+        omega
+      · exact hge
+  | none =>
+    simp only [Option.map_none]
+    by_cases hsi : g0.segIndex = 0
+    · exfalso
+      have htr := h.untr g0 hg0 hsi
+      obtain ⟨sp0, hsp0, ha, hb⟩ := h.cover g0 hg0 hop hsi k (by omega) hk2
+      rw [List.find?_eq_none] at hf
+      have := hf sp0 hsp0
+      simp [ha, hb] at this
+    · have hne : g0.segIndex ≠ 0 := hsi
+      rw [if_pos hne]
+      refine ⟨hsi, (h.bound g0 hg0).2, ?_⟩
+      intro e he r hr hlo hg hlt
+      exact (h.ptr e he r hr hlo g0 hg0 hg.symm (by omega)).2 hsi
 
 theorem raftInv_rtrunc {sk : Sk} {grps : List Grp} {act : Nat} (h : RaftInv sk grps act) {g0 : Grp}
     (hg0 : g0 ∈ grps) (hop : g0.openOK = true) {k : Nat} (hk1 : g0.trunc < k) (hk2 : k ≤ g0.last)
@@ -1125,9 +1517,8 @@ theorem raftInv_rtrunc {sk : Sk} {grps : List Grp} {act : Nat} (h : RaftInv sk g
   have hGptr : ∀ g, (grpF g0.id (rtruncF k (truncSeg g0 k)) g).ptrSeg = g.ptrSeg := by
     intro g; unfold grpF; split <;> rfl
   have hsame : ∀ g ∈ grps, g.id = g0.id → g = g0 := fun g hg hid => h.uniq g hg g0 hg0 hid
-  obtain ⟨sp1, hsp1, hs1a, hs1b, hts⟩ := truncSeg_spec h hg0 hop hk1 hk2
-  obtain ⟨e0, he0, r0, hr0, he0id, hr0g, hr0lo, hr0le, hr0hi⟩ := h.span g0 hg0 sp1 hsp1
-  refine ⟨uniq_map hGid h.uniq, ?_, h.idLe, ?_, h.cross, h.within, ?_, h.loLe, ?_, ?_⟩
+  obtain ⟨hts0, htsle, htsound⟩ := truncSeg_sound h hg0 hop hk1 hk2 hptr
+  refine ⟨uniq_map hGid h.uniq, ?_, h.idLe, h.idPos, ?_, h.cross, h.within, ?_, h.loLe, h.lhiLe, ?_, ?_, ?_, ?_, ?_⟩
   · -- bound
     intro g' hg'
     obtain ⟨g, hg, rfl⟩ := List.mem_map.mp hg'
@@ -1135,10 +1526,7 @@ theorem raftInv_rtrunc {sk : Sk} {grps : List Grp} {act : Nat} (h : RaftInv sk g
     rw [hGptr]
     refine ⟨hb.1, ?_⟩
     by_cases hid : g.id = g0.id
-    · rw [grpF_eq hid]
-      show truncSeg g0 k ≤ act
-      rw [hts, ← he0id]
-      exact h.idLe e0 he0
+    · rw [grpF_eq hid]; exact htsle
     · rw [grpF_ne hid]; exact hb.2
   · -- ptr
     intro e he r hr hlo g' hg' hid htr
@@ -1149,16 +1537,8 @@ theorem raftInv_rtrunc {sk : Sk} {grps : List Grp} {act : Nat} (h : RaftInv sk g
     · have hgg : g = g0 := hsame g hg hgid
       subst hgg
       rw [grpF_eq rfl] at htr ⊢
-      have htr' : k < r.hi := htr
-      refine ⟨hptr, ?_⟩
-      intro _
-      show truncSeg g k ≤ e.1
-      rw [hts, ← he0id]
-      rcases Nat.lt_or_ge e.1 e0.1 with hlt | hge
-      · exfalso
-        have := h.cross e he e0 he0 r hr r0 hr0 hlo hr0lo (by rw [← hid, hr0g]) hlt
-        omega
-      · exact hge
+      have htr' : k < r.lhi := htr
+      exact ⟨hptr, fun _ => htsound e he r hr hlo hid.symm htr'⟩
     · rw [grpF_ne hgid] at htr ⊢
       exact h.ptr e he r hr hlo g hg hid htr
   · -- leLast
@@ -1174,27 +1554,41 @@ theorem raftInv_rtrunc {sk : Sk} {grps : List Grp} {act : Nat} (h : RaftInv sk g
     by_cases hgid : g.id = g0.id
     · rw [grpF_eq hgid] at hsp'
       obtain ⟨sp, hsp, _, rfl⟩ := mem_pruneSpans (show sp' ∈ pruneSpans g.spans k from hsp')
-      obtain ⟨e, he, r, hr, h1, h2, h3, h4, h5⟩ := h.span g hg sp hsp
-      obtain ⟨p1, p2, p3, _⟩ := pruneOne_props k sp
-      exact ⟨e, he, r, hr, by rw [p2]; exact h1, h2, h3, by omega, by rw [p1]; exact h5⟩
+      obtain ⟨e, he, r, hr, h1, h2, h3, h4⟩ := h.span g hg sp hsp
+      obtain ⟨_, p2, p3, _⟩ := pruneOne_props k sp
+      exact ⟨e, he, r, hr, by rw [p2]; exact h1, h2, h3, by omega⟩
     · rw [grpF_ne hgid] at hsp'
       exact h.span g hg sp' hsp'
-  · -- cover
-    intro g' hg' hop' i hlo hhi
+  · -- spansOK
+    intro g' hg'
     obtain ⟨g, hg, rfl⟩ := List.mem_map.mp hg'
-    rw [hGop] at hop'
-    rw [hGlast] at hhi
     by_cases hgid : g.id = g0.id
-    · have hgg : g = g0 := hsame g hg hgid
-      subst hgg
-      rw [grpF_eq rfl] at hlo ⊢
-      have hlo' : k < i := hlo
-      obtain ⟨sp, hsp, h1, h2⟩ := h.cover g hg hop' i (by omega) hhi
-      obtain ⟨p1, _, _, p4⟩ := pruneOne_props k sp
-      refine ⟨pruneOne k sp, pruneSpans_mem hsp (by omega), ?_, by rw [p1]; exact h2⟩
-      rcases p4 with p4 | p4 <;> rw [p4] <;> omega
-    · rw [grpF_ne hgid] at hlo ⊢
-      exact h.cover g hg hop' i hlo hhi
+    · rw [grpF_eq hgid]; exact pruneSpans_ok (h.spansOK g hg) k
+    · rw [grpF_ne hgid]; exact h.spansOK g hg
+  · -- untr
+    intro g' hg' hsi
+    obtain ⟨g, hg, rfl⟩ := List.mem_map.mp hg'
+    by_cases hgid : g.id = g0.id
+    · rw [grpF_eq hgid] at hsi
+      exact absurd hsi hts0
+    · rw [grpF_ne hgid] at hsi ⊢
+      exact h.untr g hg hsi
+  · -- baseGe
+    intro g' hg'
+    obtain ⟨g, hg, rfl⟩ := List.mem_map.mp hg'
+    by_cases hgid : g.id = g0.id
+    · rw [grpF_eq hgid]
+      show k ≤ max g.base k
+      omega
+    · rw [grpF_ne hgid]; exact h.baseGe g hg
+  · -- cover
+    intro g' hg' hop' hsi i hi0 hhi
+    obtain ⟨g, hg, rfl⟩ := List.mem_map.mp hg'
+    by_cases hgid : g.id = g0.id
+    · rw [grpF_eq hgid] at hsi
+      exact absurd hsi hts0
+    · rw [grpF_ne hgid] at hop' hsi hhi ⊢
+      exact h.cover g hg hop' hsi i hi0 hhi
 
 theorem inv_rtrunc (s : S) (gid k : Nat) (h : Inv s) : Inv (rtrunc s gid k).1 := by
   unfold rtrunc
@@ -1230,7 +1624,7 @@ theorem inv_rtrunc (s : S) (gid k : Nat) (h : Inv s) : Inv (rtrunc s gid k).1 :=
               · have : g1 = g := hr.uniq g1 hg1 g hg hgg
                 subst this
                 rw [grpF_eq rfl]
-                show r.hi ≤ k
+                show r.lhi ≤ k
                 omega
               · rw [grpF_ne hgg]; exact hold
             · exact raftInv_rtrunc hr hg hop' hk1 hk2 hptr
@@ -1254,93 +1648,160 @@ theorem foldl_stepR_none (seed : Nat) (recs : List RRec) : recs.foldl (stepR see
   | nil => rfl
   | cons r t ih => simpa [List.foldl_cons, stepR] using ih
 
-/-- the replayed last index dominates every surviving record (records in increasing order) -/
-theorem replay_max (seed gid : Nat) (recs : List RRec) : ∀ (cur l : Nat),
-    recs.Pairwise RecLt → (∀ r ∈ recs, r.g = gid) → (∀ r ∈ recs, r.lo ≠ 0 → r.lo ≤ r.hi) → seed ≤ cur →
-    (∀ r ∈ recs, r.lo ≠ 0 → cur ≤ seed ∨ cur < r.lo) →
-    recs.foldl (stepR seed) (some cur) = some l →
-    cur ≤ l ∧ ∀ r ∈ recs, r.lo ≠ 0 → r.hi ≤ l := by
+theorem replay_ge_seed (seed : Nat) (recs : List RRec) : ∀ (cur l : Nat), seed ≤ cur →
+    recs.foldl (stepR seed) (some cur) = some l → seed ≤ l := by
   induction recs with
-  | nil =>
-    intro cur l _ _ _ _ _ hf
-    simp at hf; subst hf
-    exact ⟨Nat.le_refl _, fun r hr => by cases hr⟩
+  | nil => intro cur l h hf; simp at hf; subst hf; exact h
   | cons r t ih =>
-    intro cur l hpw hg hle hseed hcur hf
+    intro cur l h hf
+    simp only [List.foldl_cons] at hf
+    by_cases h0 : r.lo = 0
+    · have hs : stepR seed (some cur) r = some cur := by simp [stepR, h0]
+      rw [hs] at hf; exact ih cur l h hf
+    · by_cases h1 : r.hi ≤ seed
+      · have hs : stepR seed (some cur) r = some cur := by simp [stepR, h0, h1]
+        rw [hs] at hf; exact ih cur l h hf
+      · by_cases h2 : r.lo > cur + 1
+        · have hs : stepR seed (some cur) r = none := by simp [stepR, h0, h1, h2]
+          rw [hs, foldl_stepR_none] at hf; cases hf
+        · have hs : stepR seed (some cur) r = some r.hi := by simp [stepR, h0, h1, h2]
+          rw [hs] at hf; exact ih r.hi l (by omega) hf
+
+/-- a bound that lies below the start of every remaining record survives the replay -/
+theorem replay_bound (seed : Nat) (recs : List RRec) : ∀ (cur l b : Nat),
+    (∀ r ∈ recs, r.lo ≠ 0 → r.lo ≤ r.hi) → b ≤ cur → (∀ x ∈ recs, x.lo ≠ 0 → b < x.lo) →
+    recs.foldl (stepR seed) (some cur) = some l → b ≤ l := by
+  induction recs with
+  | nil => intro cur l b _ h _ hf; simp at hf; subst hf; exact h
+  | cons r t ih =>
+    intro cur l b hle h hb hf
+    have hlet : ∀ x ∈ t, x.lo ≠ 0 → x.lo ≤ x.hi := fun x hx => hle x (by simp [hx])
+    have hbt : ∀ x ∈ t, x.lo ≠ 0 → b < x.lo := fun x hx => hb x (by simp [hx])
+    simp only [List.foldl_cons] at hf
+    by_cases h0 : r.lo = 0
+    · have hs : stepR seed (some cur) r = some cur := by simp [stepR, h0]
+      rw [hs] at hf; exact ih cur l b hlet h hbt hf
+    · by_cases h1 : r.hi ≤ seed
+      · have hs : stepR seed (some cur) r = some cur := by simp [stepR, h0, h1]
+        rw [hs] at hf; exact ih cur l b hlet h hbt hf
+      · by_cases h2 : r.lo > cur + 1
+        · have hs : stepR seed (some cur) r = none := by simp [stepR, h0, h1, h2]
+          rw [hs, foldl_stepR_none] at hf; cases hf
+        · have hs : stepR seed (some cur) r = some r.hi := by simp [stepR, h0, h1, h2]
+          rw [hs] at hf
+          have := hb r (by simp) h0
+          have := hle r (by simp) h0
+          exact ih r.hi l b hlet (by omega) hbt hf
+
+/-- the replayed last index dominates the live part of every surviving record -/
+theorem replay_lhi (seed gid : Nat) (recs : List RRec) : ∀ (cur l : Nat),
+    recs.Pairwise RecLt → (∀ r ∈ recs, r.g = gid) → (∀ r ∈ recs, r.lo ≠ 0 → r.lo ≤ r.hi) →
+    (∀ r ∈ recs, r.lo ≠ 0 → r.lhi ≤ r.hi) → seed ≤ cur →
+    recs.foldl (stepR seed) (some cur) = some l → ∀ r ∈ recs, r.lo ≠ 0 → r.lhi ≤ l := by
+  induction recs with
+  | nil => intro cur l _ _ _ _ _ _ r hr; cases hr
+  | cons r t ih =>
+    intro cur l hpw hg hle hlh hseed hf x hx hxlo
     rw [List.pairwise_cons] at hpw
     obtain ⟨hr1, hpt⟩ := hpw
-    have hgt : ∀ x ∈ t, x.g = gid := fun x hx => hg x (by simp [hx])
-    have hlet : ∀ x ∈ t, x.lo ≠ 0 → x.lo ≤ x.hi := fun x hx => hle x (by simp [hx])
-    have hcurt : ∀ x ∈ t, x.lo ≠ 0 → cur ≤ seed ∨ cur < x.lo := fun x hx => hcur x (by simp [hx])
+    have hgt : ∀ y ∈ t, y.g = gid := fun y hy => hg y (by simp [hy])
+    have hlet : ∀ y ∈ t, y.lo ≠ 0 → y.lo ≤ y.hi := fun y hy => hle y (by simp [hy])
+    have hlht : ∀ y ∈ t, y.lo ≠ 0 → y.lhi ≤ y.hi := fun y hy => hlh y (by simp [hy])
     simp only [List.foldl_cons] at hf
     by_cases h0 : r.lo = 0
     · have hs : stepR seed (some cur) r = some cur := by simp [stepR, h0]
       rw [hs] at hf
-      obtain ⟨h1, h2⟩ := ih cur l hpt hgt hlet hseed hcurt hf
-      refine ⟨h1, ?_⟩
-      intro x hx hlo
-      rcases List.mem_cons.mp hx with hx | hx
-      · subst hx; exact absurd h0 hlo
-      · exact h2 x hx hlo
+      rcases List.mem_cons.mp hx with h1 | h1
+      · subst h1; exact absurd h0 hxlo
+      · exact ih cur l hpt hgt hlet hlht hseed hf x h1 hxlo
     · by_cases h1 : r.hi ≤ seed
       · have hs : stepR seed (some cur) r = some cur := by simp [stepR, h0, h1]
         rw [hs] at hf
-        obtain ⟨h2, h3⟩ := ih cur l hpt hgt hlet hseed hcurt hf
-        refine ⟨h2, ?_⟩
-        intro x hx hlo
-        rcases List.mem_cons.mp hx with hx | hx
-        · subst hx; omega
-        · exact h3 x hx hlo
+        rcases List.mem_cons.mp hx with h2 | h2
+        · subst h2
+          have := replay_ge_seed seed t cur l hseed hf
+          have := hlh x (by simp) hxlo
+          omega
+        · exact ih cur l hpt hgt hlet hlht hseed hf x h2 hxlo
       · by_cases h2 : r.lo > cur + 1
         · have hs : stepR seed (some cur) r = none := by simp [stepR, h0, h1, h2]
-          rw [hs, foldl_stepR_none] at hf
-          cases hf
+          rw [hs, foldl_stepR_none] at hf; cases hf
         · have hs : stepR seed (some cur) r = some r.hi := by simp [stepR, h0, h1, h2]
           rw [hs] at hf
-          have hrle := hle r (by simp) h0
-          have hnext : ∀ x ∈ t, x.lo ≠ 0 → r.hi ≤ seed ∨ r.hi < x.lo := by
-            intro x hx hlo
-            right
-            exact hr1 x hx h0 hlo (by rw [hg r (by simp), hgt x hx])
-          obtain ⟨h3, h4⟩ := ih r.hi l hpt hgt hlet (by omega) hnext hf
-          have hcr := hcur r (by simp) h0
-          refine ⟨by omega, ?_⟩
-          intro x hx hlo
-          rcases List.mem_cons.mp hx with hx | hx
-          · subst hx; exact h3
-          · exact h4 x hx hlo
+          rcases List.mem_cons.mp hx with h3 | h3
+          · subst h3
+            refine replay_bound seed t x.hi l x.lhi hlet (hlh x (by simp) hxlo) ?_ hf
+            intro y hy hylo
+            exact hr1 y hy hxlo hylo (by rw [hg x (by simp), hgt y hy])
+          · exact ih r.hi l hpt hgt hlet hlht (by omega) hf x h3 hxlo
 
-/-- every index between the start and the replayed last index is covered by a surviving record -/
-theorem replay_cover (seed : Nat) (recs : List RRec) : ∀ (cur l : Nat),
-    recs.foldl (stepR seed) (some cur) = some l →
-    ∀ i, cur < i → i ≤ l → ∃ r ∈ recs, r.lo ≠ 0 ∧ r.lo ≤ i ∧ i ≤ r.hi := by
-  induction recs with
+/-! ### spans rebuilt by replay -/
+
+def stepT (seed : Nat) (acc : Option Nat) (t : Nat × Nat × Nat) : Option Nat :=
+  match acc with
+  | none => none
+  | some cur =>
+    if t.2.1 ≤ seed then some cur
+    else if t.1 > cur + 1 then none
+    else some t.2.1
+
+theorem foldl_stepT_none (seed : Nat) (L : List (Nat × Nat × Nat)) : L.foldl (stepT seed) none = none := by
+  induction L with
+  | nil => rfl
+  | cons t ts ih => simpa [List.foldl_cons, stepT] using ih
+
+def addT (acc : List (Nat × Nat × Nat)) (t : Nat × Nat × Nat) : List (Nat × Nat × Nat) := addSpan acc t.1 t.2.1 t.2.2
+
+theorem foldSpans_eq (L : List (Nat × Nat × Nat)) : foldSpans L = L.foldl addT [] := rfl
+
+theorem fold_ok (L : List (Nat × Nat × Nat)) : ∀ acc, (∀ t ∈ L, t.1 ≤ t.2.1) → SpansOK acc → SpansOK (L.foldl addT acc) := by
+  induction L with
+  | nil => intro acc _ h; exact h
+  | cons t ts ih =>
+    intro acc hl h
+    simp only [List.foldl_cons]
+    exact ih _ (fun x hx => hl x (by simp [hx])) (addSpan_ok h (hl t (by simp)))
+
+theorem fold_origin (T L : List (Nat × Nat × Nat)) : ∀ acc, (∀ t ∈ L, t ∈ T) →
+    (∀ sp ∈ acc, ∃ t ∈ T, t.2.2 = sp.2.2 ∧ t.1 ≤ sp.1) →
+    ∀ sp ∈ L.foldl addT acc, ∃ t ∈ T, t.2.2 = sp.2.2 ∧ t.1 ≤ sp.1 := by
+  induction L with
+  | nil => intro acc _ h; exact h
+  | cons t ts ih =>
+    intro acc hsub h
+    simp only [List.foldl_cons]
+    apply ih _ (fun x hx => hsub x (by simp [hx]))
+    intro sp' hsp'
+    rcases mem_addSpan (show sp' ∈ addSpan acc t.1 t.2.1 t.2.2 from hsp') with ⟨h1, _⟩ | ⟨sp, hsp, _, rfl⟩ | rfl
+    · exact h sp' h1
+    · obtain ⟨t0, ht0, h2, h3⟩ := h sp hsp
+      exact ⟨t0, ht0, h2, h3⟩
+    · exact ⟨t, hsub t (by simp), rfl, Nat.le_refl _⟩
+
+/-- replay without seed: what the log reaches is covered by the rebuilt spans -/
+theorem fold_cover0 (L : List (Nat × Nat × Nat)) : ∀ (cur : Nat) (acc : List (Nat × Nat × Nat)) (l : Nat),
+    (∀ t ∈ L, 1 ≤ t.1 ∧ t.1 ≤ t.2.1) → SpansOK acc → (∀ i, 0 < i → i ≤ cur → Covered acc i) →
+    L.foldl (stepT 0) (some cur) = some l → ∀ i, 0 < i → i ≤ l → Covered (L.foldl addT acc) i := by
+  induction L with
   | nil =>
-    intro cur l hf i h1 h2
-    simp at hf; subst hf; omega
-  | cons r t ih =>
-    intro cur l hf i hi1 hi2
-    simp only [List.foldl_cons] at hf
-    by_cases h0 : r.lo = 0
-    · have hs : stepR seed (some cur) r = some cur := by simp [stepR, h0]
+    intro cur acc l _ _ hc hf i h1 h2
+    simp at hf; subst hf; exact hc i h1 h2
+  | cons t ts ih =>
+    intro cur acc l hL hok hc hf i h1 h2
+    simp only [List.foldl_cons] at hf ⊢
+    obtain ⟨ht1, ht2⟩ := hL t (by simp)
+    have hLt : ∀ x ∈ ts, 1 ≤ x.1 ∧ x.1 ≤ x.2.1 := fun x hx => hL x (by simp [hx])
+    have hnot : ¬ (t.2.1 ≤ 0) := by omega
+    by_cases hgap : t.1 > cur + 1
+    · have hs : stepT 0 (some cur) t = none := by simp [stepT, hnot, hgap]
+      rw [hs, foldl_stepT_none] at hf; cases hf
+    · have hs : stepT 0 (some cur) t = some t.2.1 := by simp [stepT, hnot, hgap]
       rw [hs] at hf
-      obtain ⟨x, hx, hrest⟩ := ih cur l hf i hi1 hi2
-      exact ⟨x, by simp [hx], hrest⟩
-    · by_cases h1 : r.hi ≤ seed
-      · have hs : stepR seed (some cur) r = some cur := by simp [stepR, h0, h1]
-        rw [hs] at hf
-        obtain ⟨x, hx, hrest⟩ := ih cur l hf i hi1 hi2
-        exact ⟨x, by simp [hx], hrest⟩
-      · by_cases h2 : r.lo > cur + 1
-        · have hs : stepR seed (some cur) r = none := by simp [stepR, h0, h1, h2]
-          rw [hs, foldl_stepR_none] at hf
-          cases hf
-        · have hs : stepR seed (some cur) r = some r.hi := by simp [stepR, h0, h1, h2]
-          rw [hs] at hf
-          by_cases hir : i ≤ r.hi
-          · exact ⟨r, by simp, h0, by omega, hir⟩
-          · obtain ⟨x, hx, hrest⟩ := ih r.hi l hf i (by omega) hi2
-            exact ⟨x, by simp [hx], hrest⟩
+      refine ih t.2.1 (addT acc t) l hLt (addSpan_ok hok ht2) ?_ hf i h1 h2
+      intro j hj1 hj2
+      by_cases hjt : j < t.1
+      · exact addSpan_cover_old hok hjt (hc j hj1 (by omega))
+      · exact addSpan_cover_new _ (by omega) hj2
 
 /-! ### crash, stage 1: recovery cleanup -/
 
@@ -1398,7 +1859,8 @@ def grpRecs (segsP : List Segm) (gid : Nat) : List RRec := (segsP.flatMap (·.ra
 theorem recoverGrp_cases (c : SCfg) (hseed : c.replaySeedsTrunc = true) (segsP : List Segm) (g : Grp) :
     recoverGrp c segsP g = g ∨ recoverGrp c segsP g = { g with openOK := false } ∨
     ∃ l, replayRecs (grpRecs segsP g.id) g.trunc g.trunc = some l ∧ g.openOK = true ∧
-      recoverGrp c segsP g = { g with last := l, base := g.trunc, spans := pruneSpans (allSpans segsP g.id) g.trunc } := by
+      recoverGrp c segsP g =
+        { g with last := l, base := g.trunc, spans := pruneSpans (foldSpans (allSpans segsP g.id)) g.trunc } := by
   unfold recoverGrp
   simp only [hseed, if_true]
   split
@@ -1433,6 +1895,53 @@ theorem mem_allSpans {segsP : List Segm} {gid : Nat} {sp : Nat × Nat × Nat} :
   · rintro ⟨sg, hsg, r, hr, hg, hlo, rfl⟩
     exact ⟨sg, hsg, List.mem_map.mpr ⟨r, List.mem_filter.mpr ⟨hr, by simp [hg, hlo]⟩, rfl⟩⟩
 
+/-- replaying the records of one segment = replaying its spans-to-be -/
+theorem replay_seg_eq (seed gid sid : Nat) (raft : List RRec) : ∀ acc : Option Nat,
+    (raft.filter (·.g == gid)).foldl (stepR seed) acc =
+      ((raft.filter (fun r => r.g == gid && r.lo != 0)).map (fun r => (r.lo, r.hi, sid))).foldl (stepT seed) acc := by
+  induction raft with
+  | nil => intro acc; rfl
+  | cons r t ih =>
+    intro acc
+    by_cases hg : r.g = gid
+    · by_cases hlo : r.lo = 0
+      · have h1 : (r :: t).filter (·.g == gid) = r :: t.filter (·.g == gid) := by simp [hg]
+        have h2 : (r :: t).filter (fun r => r.g == gid && r.lo != 0) = t.filter (fun r => r.g == gid && r.lo != 0) := by
+          simp [hg, hlo]
+        rw [h1, h2, List.foldl_cons]
+        have hs : stepR seed acc r = acc := by
+          cases acc with
+          | none => rfl
+          | some cur => simp [stepR, hlo]
+        rw [hs]; exact ih acc
+      · have h1 : (r :: t).filter (·.g == gid) = r :: t.filter (·.g == gid) := by simp [hg]
+        have h2 : (r :: t).filter (fun r => r.g == gid && r.lo != 0) = r :: t.filter (fun r => r.g == gid && r.lo != 0) := by
+          simp [hg, hlo]
+        rw [h1, h2, List.map_cons, List.foldl_cons, List.foldl_cons]
+        have hs : stepR seed acc r = stepT seed acc (r.lo, r.hi, sid) := by
+          cases acc with
+          | none => rfl
+          | some cur => simp [stepR, stepT, hlo]
+        rw [hs]; exact ih _
+    · have h1 : (r :: t).filter (·.g == gid) = t.filter (·.g == gid) := by simp [hg]
+      have h2 : (r :: t).filter (fun r => r.g == gid && r.lo != 0) = t.filter (fun r => r.g == gid && r.lo != 0) := by
+        simp [hg]
+      rw [h1, h2]; exact ih acc
+
+theorem replay_eq_T (seed gid : Nat) (segsP : List Segm) : ∀ acc : Option Nat,
+    (grpRecs segsP gid).foldl (stepR seed) acc = (allSpans segsP gid).foldl (stepT seed) acc := by
+  induction segsP with
+  | nil => intro acc; rfl
+  | cons sg rest ih =>
+    intro acc
+    have h1 : grpRecs (sg :: rest) gid = sg.raft.filter (·.g == gid) ++ grpRecs rest gid := by
+      unfold grpRecs; simp [List.flatMap_cons, List.filter_append]
+    have h2 : allSpans (sg :: rest) gid =
+        (sg.raft.filter (fun r => r.g == gid && r.lo != 0)).map (fun r => (r.lo, r.hi, sg.id)) ++ allSpans rest gid := by
+      unfold allSpans; simp [List.flatMap_cons]
+    rw [h1, h2, List.foldl_append, List.foldl_append, replay_seg_eq seed gid sg.id sg.raft acc]
+    exact ih _
+
 theorem grpRecs_pairwise {s : S} (hs : Shape s) (hr : RaftInv (skel s.segs) s.grps s.active) (gid : Nat) :
     (grpRecs (s.segs.filter (·.present)) gid).Pairwise RecLt := by
   unfold grpRecs
@@ -1458,7 +1967,13 @@ theorem raftInv_crash3 (c : SCfg) (hseed : c.replaySeedsTrunc = true) {s : S} (h
     intro g
     rcases recoverGrp_cases c hseed (s.segs.filter (·.present)) g with h1 | h1 | ⟨l, _, _, h1⟩ <;> rw [h1] <;>
       exact ⟨rfl, rfl, rfl, rfl⟩
-  refine ⟨uniq_map (fun g => (hF g).1) hr.uniq, ?_, hr.idLe, ?_, hr.cross, hr.within, ?_, hr.loLe, ?_, ?_⟩
+  have hT : ∀ (gid : Nat), ∀ t ∈ allSpans (s.segs.filter (·.present)) gid, 1 ≤ t.1 ∧ t.1 ≤ t.2.1 := by
+    intro gid t ht
+    obtain ⟨sg, hsg, r, hrm, _, hlo, rfl⟩ := mem_allSpans.mp ht
+    have := hr.loLe _ (mem_skel (List.mem_filter.mp hsg).1) r hrm hlo
+    exact ⟨by show 1 ≤ r.lo; omega, this⟩
+  refine ⟨uniq_map (fun g => (hF g).1) hr.uniq, ?_, hr.idLe, hr.idPos, ?_, hr.cross, hr.within, ?_, hr.loLe, hr.lhiLe,
+    ?_, ?_, ?_, ?_, ?_⟩
   · intro g' hg'
     obtain ⟨g, hg, rfl⟩ := List.mem_map.mp hg'
     rw [(hF g).2.2.1, (hF g).2.2.2]; exact hr.bound g hg
@@ -1476,24 +1991,29 @@ theorem raftInv_crash3 (c : SCfg) (hseed : c.replaySeedsTrunc = true) {s : S} (h
     · rw [h1]; exact hr.leLast e he r hrm hlo g hg hid
     · rw [h1]; exact hr.leLast e he r hrm hlo g hg hid
     · rw [h1]
-      show r.hi ≤ l
+      show r.lhi ≤ l
       obtain ⟨sg, hsg, hsid, hsraft⟩ := of_mem_skel he
       rw [replayRecs_eq] at hl
-      have hmax := replay_max g.trunc g.id (grpRecs (s.segs.filter (·.present)) g.id) g.trunc l
-        (grpRecs_pairwise hs hr g.id) (fun x hx => (mem_grpRecs.mp hx).2)
-        (by
-          intro x hx hxlo
-          obtain ⟨⟨sg', hsg', hxr⟩, _⟩ := mem_grpRecs.mp hx
-          exact hr.loLe _ (mem_skel (List.mem_filter.mp hsg').1) x hxr hxlo)
-        (Nat.le_refl _) (fun _ _ _ => Or.inl (Nat.le_refl _)) hl
+      have hrecs : ∀ x ∈ grpRecs (s.segs.filter (·.present)) g.id, ∃ sg' ∈ s.segs, x ∈ sg'.raft := by
+        intro x hx
+        obtain ⟨⟨sg', hsg', hxr⟩, _⟩ := mem_grpRecs.mp hx
+        exact ⟨sg', (List.mem_filter.mp hsg').1, hxr⟩
       cases hp : sg.present with
       | false =>
         have := hk sg hsg hp r (by rw [hsraft]; exact hrm) hlo g hg hid
+        have := replay_ge_seed g.trunc _ g.trunc l (Nat.le_refl _) hl
         omega
       | true =>
-        apply hmax.2 r _ hlo
-        rw [mem_grpRecs]
-        exact ⟨⟨sg, List.mem_filter.mpr ⟨hsg, by simpa using hp⟩, by rw [hsraft]; exact hrm⟩, hid.symm⟩
+        refine replay_lhi g.trunc g.id (grpRecs (s.segs.filter (·.present)) g.id) g.trunc l
+          (grpRecs_pairwise hs hr g.id) (fun x hx => (mem_grpRecs.mp hx).2) ?_ ?_ (Nat.le_refl _) hl r ?_ hlo
+        · intro x hx hxlo
+          obtain ⟨sg', hsg', hxr⟩ := hrecs x hx
+          exact hr.loLe _ (mem_skel hsg') x hxr hxlo
+        · intro x hx hxlo
+          obtain ⟨sg', hsg', hxr⟩ := hrecs x hx
+          exact hr.lhiLe _ (mem_skel hsg') x hxr hxlo
+        · rw [mem_grpRecs]
+          exact ⟨⟨sg, List.mem_filter.mpr ⟨hsg, by simpa using hp⟩, by rw [hsraft]; exact hrm⟩, hid.symm⟩
   · -- span
     intro g' hg' sp' hsp'
     obtain ⟨g, hg, rfl⟩ := List.mem_map.mp hg'
@@ -1502,30 +2022,55 @@ theorem raftInv_crash3 (c : SCfg) (hseed : c.replaySeedsTrunc = true) {s : S} (h
     · rw [h1] at hsp'; exact hr.span g hg sp' hsp'
     · rw [h1] at hsp'; exact hr.span g hg sp' hsp'
     · rw [h1] at hsp'
-      obtain ⟨sp, hsp, _, rfl⟩ := mem_pruneSpans (show sp' ∈ pruneSpans (allSpans (s.segs.filter (·.present)) g.id) g.trunc from hsp')
-      obtain ⟨sg, hsg, r, hrm, hrg, hrlo, rfl⟩ := mem_allSpans.mp hsp
-      obtain ⟨p1, p2, p3, _⟩ := pruneOne_props g.trunc (r.lo, r.hi, sg.id)
-      exact ⟨(sg.id, sg.raft), mem_skel (List.mem_filter.mp hsg).1, r, hrm, by rw [p2], hrg, hrlo, p3, by rw [p1]⟩
-  · -- cover
-    intro g' hg' hop i hlo hhi
+      obtain ⟨sp, hsp, _, rfl⟩ := mem_pruneSpans
+        (show sp' ∈ pruneSpans (foldSpans (allSpans (s.segs.filter (·.present)) g.id)) g.trunc from hsp')
+      rw [foldSpans_eq] at hsp
+      obtain ⟨t, ht, ht1, ht2⟩ := fold_origin (allSpans (s.segs.filter (·.present)) g.id) _ []
+        (fun t ht => ht) (fun sp hsp => by cases hsp) sp hsp
+      obtain ⟨sg, hsg, r, hrm, hrg, hrlo, rfl⟩ := mem_allSpans.mp ht
+      obtain ⟨_, p2, p3, _⟩ := pruneOne_props g.trunc sp
+      refine ⟨(sg.id, sg.raft), mem_skel (List.mem_filter.mp hsg).1, r, hrm, ?_, hrg, hrlo, ?_⟩
+      · rw [p2]; exact ht1
+      · have : r.lo ≤ sp.1 := ht2
+        omega
+  · -- spansOK
+    intro g' hg'
     obtain ⟨g, hg, rfl⟩ := List.mem_map.mp hg'
-    rw [(hF g).2.1] at hlo
+    rcases recoverGrp_cases c hseed (s.segs.filter (·.present)) g with h1 | h1 | ⟨l, _, _, h1⟩
+    · rw [h1]; exact hr.spansOK g hg
+    · rw [h1]; exact hr.spansOK g hg
+    · rw [h1]
+      show SpansOK (pruneSpans (foldSpans (allSpans (s.segs.filter (·.present)) g.id)) g.trunc)
+      rw [foldSpans_eq]
+      exact pruneSpans_ok (fold_ok _ [] (fun t ht => (hT g.id t ht).2) ⟨List.Pairwise.nil, fun sp hsp => by cases hsp⟩) _
+  · -- untr
+    intro g' hg' hsi
+    obtain ⟨g, hg, rfl⟩ := List.mem_map.mp hg'
+    rw [(hF g).2.2.1] at hsi; rw [(hF g).2.1]
+    exact hr.untr g hg hsi
+  · -- baseGe
+    intro g' hg'
+    obtain ⟨g, hg, rfl⟩ := List.mem_map.mp hg'
+    rcases recoverGrp_cases c hseed (s.segs.filter (·.present)) g with h1 | h1 | ⟨l, _, _, h1⟩
+    · rw [h1]; exact hr.baseGe g hg
+    · rw [h1]; exact hr.baseGe g hg
+    · rw [h1]; exact Nat.le_refl _
+  · -- cover
+    intro g' hg' hop hsi i hi0 hhi
+    obtain ⟨g, hg, rfl⟩ := List.mem_map.mp hg'
+    rw [(hF g).2.2.1] at hsi
     rcases recoverGrp_cases c hseed (s.segs.filter (·.present)) g with h1 | h1 | ⟨l, hl, _, h1⟩
-    · rw [h1] at hop hhi ⊢; exact hr.cover g hg hop i hlo hhi
+    · rw [h1] at hop hhi ⊢; exact hr.cover g hg hop hsi i hi0 hhi
     · rw [h1] at hop; cases hop
     · rw [h1] at hhi ⊢
       have hhi' : i ≤ l := hhi
-      rw [replayRecs_eq] at hl
-      obtain ⟨r, hrm, hrlo, h2, h3⟩ := replay_cover g.trunc _ g.trunc l hl i hlo hhi'
-      obtain ⟨⟨sg, hsg, hrs⟩, hrg⟩ := mem_grpRecs.mp hrm
-      have hspm : (r.lo, r.hi, sg.id) ∈ allSpans (s.segs.filter (·.present)) g.id :=
-        mem_allSpans.mpr ⟨sg, hsg, r, hrs, hrg, hrlo, rfl⟩
-      obtain ⟨p1, _, _, p4⟩ := pruneOne_props g.trunc (r.lo, r.hi, sg.id)
-      refine ⟨pruneOne g.trunc (r.lo, r.hi, sg.id), pruneSpans_mem hspm (by show g.trunc < r.hi; omega), ?_, ?_⟩
-      · rcases p4 with p4 | p4 <;> rw [p4]
-        · exact h2
-        · omega
-      · rw [p1]; exact h3
+      have htr0 : g.trunc = 0 := hr.untr g hg hsi
+      rw [replayRecs_eq, htr0, replay_eq_T] at hl
+      show Covered (pruneSpans (foldSpans (allSpans (s.segs.filter (·.present)) g.id)) g.trunc) i
+      rw [htr0, foldSpans_eq]
+      apply pruneSpans_cover hi0
+      exact fold_cover0 _ 0 [] l (hT g.id) ⟨List.Pairwise.nil, fun sp hsp => by cases hsp⟩
+        (fun j h1 h2 => by omega) hl i hi0 hhi'
 
 theorem inv_crash3 (c : SCfg) (hseed : c.replaySeedsTrunc = true) (s : S) (h : Inv s) : Inv (crash3 c s) := by
   obtain ⟨hs, hl, hk, hr⟩ := h
@@ -1566,22 +2111,30 @@ theorem inv_init : Inv ({} : S) := by
       intro g hg
       have : g ∈ [({ id := 1 } : Grp), { id := 2 }] := hg
       simpa using this
-    refine ⟨?_, ?_, ?_, ?_, ?_, ?_, ?_, ?_, ?_, ?_⟩
+    refine ⟨?_, ?_, ?_, ?_, ?_, ?_, ?_, ?_, ?_, ?_, ?_, ?_, ?_, ?_, ?_⟩
     · intro g1 h1 g2 h2 hid
       rcases hgr g1 h1 with rfl | rfl <;> rcases hgr g2 h2 with rfl | rfl <;>
         first | rfl | (exact absurd hid (by decide))
     · intro g hg
       rcases hgr g hg with rfl | rfl <;> exact ⟨by decide, by decide⟩
     · intro e he; rw [hsk e he]; show 1 ≤ 1; omega
+    · intro e he; rw [hsk e he]; show 0 < 1; omega
     · intro e he r hr; rw [hsk e he] at hr; cases hr
     · intro eA heA eB heB rA hrA; rw [hsk eA heA] at hrA; cases hrA
     · intro e he; rw [hsk e he]; exact List.Pairwise.nil
     · intro e he r hr; rw [hsk e he] at hr; cases hr
     · intro e he r hr; rw [hsk e he] at hr; cases hr
+    · intro e he r hr; rw [hsk e he] at hr; cases hr
     · intro g hg sp hsp
       rcases hgr g hg with rfl | rfl <;> cases hsp
-    · intro g hg _ i h1 h2
-      rcases hgr g hg with rfl | rfl <;> (simp at h1 h2; omega)
+    · intro g hg
+      rcases hgr g hg with rfl | rfl <;> exact ⟨List.Pairwise.nil, fun sp hsp => by cases hsp⟩
+    · intro g hg _
+      rcases hgr g hg with rfl | rfl <;> rfl
+    · intro g hg
+      rcases hgr g hg with rfl | rfl <;> exact Nat.le_refl _
+    · intro g hg _ _ i h1 h2
+      rcases hgr g hg with rfl | rfl <;> (simp at h2; omega)
 
 /-! ### flush order (`Ord`) -/
 
@@ -1871,6 +2424,23 @@ theorem both_crash (c : SCfg) (hc : c.Good) (s : S) (h : Inv s) (ho : Ord s) : I
   have ho3 : Ord (crash3 c (crash2 c (crash1 c s))) := ord_same (s := crash2 c (crash1 c s)) rfl rfl rfl rfl rfl ho2
   exact ⟨inv_put _ 0 hi3, ord_put _ 0 ho3⟩
 
+theorem ord_rover (s : S) (gid start n : Nat) (ho : Ord s) : Ord (rover s gid start n).1 := by
+  unfold rover
+  split
+  · exact ho
+  · split
+    · exact ho
+    · split
+      · exact ho
+      · split
+        · exact ho
+        · rename_i g _ _ _ _
+          refine ord_map (s := s) (s' := roverSt s gid start n)
+            (roverSegF gid start s.active ⟨gid, start, start + n - 1, start + n - 1⟩)
+            (fun sg => ⟨(roverSegF_props _ _ _ _ sg).1, (roverSegF_props _ _ _ _ sg).2.2⟩) ?_ rfl rfl rfl rfl ho
+          show (s.segs.map (cutF gid start)).map (raftF s.active _) = _
+          rw [List.map_map]; rfl
+
 theorem ord_raft_ops (s : S) (ho : Ord s) :
     (∀ g n, Ord (rapp s g n).1) ∧ (∀ g, Ord (rhs s g).1) ∧ (∀ g k, Ord (rtrunc s g k).1) := by
   refine ⟨?_, ?_, ?_⟩
@@ -1878,20 +2448,14 @@ theorem ord_raft_ops (s : S) (ho : Ord s) :
     unfold rapp
     split
     · exact ho
-    · split
-      · exact ho
-      · split
-        · exact ho
-        · rename_i g _ _ _
-          exact ord_map (s := s) (raftF s.active ⟨gid, g.last + 1, g.last + n⟩)
-            (fun sg => ⟨raftF_id _ _ sg, raftF_present _ _ sg⟩) rfl rfl rfl rfl rfl ho
+    · exact ord_rover s gid _ n ho
   · intro gid
     unfold rhs
     split
     · exact ho
     · split
       · exact ho
-      · exact ord_map (s := s) (raftF s.active ⟨gid, 0, 0⟩)
+      · exact ord_map (s := s) (raftF s.active ⟨gid, 0, 0, 0⟩)
           (fun sg => ⟨raftF_id _ _ sg, raftF_present _ _ sg⟩) rfl rfl rfl rfl rfl ho
   · intro gid k
     unfold rtrunc
@@ -1915,6 +2479,7 @@ theorem both_step (c : SCfg) (hc : c.Good) (s : S) (op : Op) (h : Inv s) (ho : O
   cases op with
   | put k => exact ⟨inv_put s k h, ord_put s k ho⟩
   | rapp g n => exact ⟨inv_rapp s g n h, (ord_raft_ops s ho).1 g n⟩
+  | rover g st n => exact ⟨inv_rover s g st n h, ord_rover s g st n ho⟩
   | rhs g => exact ⟨inv_rhs s g h, (ord_raft_ops s ho).2.1 g⟩
   | rtrunc g k => exact ⟨inv_rtrunc s g k h, (ord_raft_ops s ho).2.2 g k⟩
   | rotate => exact ⟨inv_rotate c hg s h, ord_rotate c hg s h ho⟩
